@@ -58,11 +58,6 @@ Proof.
   destruct (i =? 0); [discriminate|]. now rewrite IH.
 Qed.
 
-(* ---------- the automaton state that mirrors a lifecycle state ---------- *)
-Definition code (o : ost) : N := match o with Closed => 2 | _ => 1 end.
-Definition mirror (st : state) : astate :=
-  mkA (map (fun c => code (c_st c)) (conns st)) (map (fun s => code (s_st s)) (sesss st)).
-
 Lemma nnth_map {A B} (f : A -> B) l i : nnth i (map f l) = option_map f (nnth i l).
 Proof.
   revert i; induction l as [|y t IH]; intros i; cbn [nnth map]; [reflexivity|].
@@ -92,114 +87,490 @@ Proof.
   destruct (astep a x); [apply IH|reflexivity].
 Qed.
 
+
+(* ---------- structural invariant ---------- *)
+(* What the ordering of callbacks rests on, as in the code:
+     - a reader that is inside a packet callback is still running, and it works for the session its connection
+       is attached to, which has that connection in its conns set;
+     - a connection is closed (done closed, OnConnClose delivered) only after its reader has returned
+       (ServerConn.run: nconn.Close(); reader.wait(); THEN removeConn / closeConn / OnConnClose);
+     - a session is closed only after every connection in its conns set is closed (ServerSession.run waits for
+       sc.done), and its medias are stopped only when no UDP callback is in progress. *)
+Definition cwf (ss : list sess) (c : N) (x : conn) : Prop :=
+  (c_busy x <> None -> c_reader x = true) /\ (c_st x = Closed -> c_reader x = false) /\
+  (forall s, c_busy x = Some s -> c_sess x = Some s) /\
+  (forall s, c_sess x = Some s -> exists y, nnth s ss = Some y /\ In c (s_conns y)).
+Definition swf (cs : list conn) (y : sess) : Prop :=
+  (s_st y = Closed -> forallb (conn_closed cs) (s_conns y) = true) /\ (s_media y = false -> s_srun y = 0) /\
+  Forall (fun i => i < nlen cs) (s_conns y).
+Definition linv (st : state) : Prop :=
+  (forall c x, nnth c (conns st) = Some x -> cwf (sesss st) c x) /\
+  (forall s y, nnth s (sesss st) = Some y -> swf (conns st) y).
+
+Lemma nnth_nupd {A} i j (f : A -> A) l :
+  nnth j (nupd i f l) = if j =? i then option_map f (nnth j l) else nnth j l.
+Proof.
+  destruct (N.eqb_spec j i) as [->|Hne].
+  - destruct (nnth i l) as [x|] eqn:E.
+    + now rewrite (nnth_nupd_same _ _ _ _ E).
+    + now rewrite (nupd_none _ _ _ E), E.
+  - apply nnth_nupd_other. congruence.
+Qed.
+
+Lemma nnth_snoc {A} (l : list A) x i : nnth i (l ++ [x]) = if i =? nlen l then Some x else nnth i l.
+Proof.
+  destruct (N.eqb_spec i (nlen l)) as [->|Hne].
+  - induction l as [|y t IH]; cbn [nlen app nnth]; [reflexivity|].
+    destruct (N.eqb_spec (N.succ (nlen t)) 0); [lia|]. now rewrite N.pred_succ.
+  - destruct (N.ltb_spec i (nlen l)).
+    + destruct (nnth_lt l i H) as (y & Hy). rewrite Hy. now apply nnth_app_l.
+    + rewrite (nnth_ge l i H). rewrite nnth_app_r by lia. cbn [nnth nlen].
+      destruct (N.eqb_spec (i - nlen l) 0); [lia|reflexivity].
+Qed.
+
+(* monotone change of the connection list: no connection disappears, closed stays closed *)
+Definition cmono (cs cs' : list conn) : Prop :=
+  nlen cs <= nlen cs' /\ forall i, i < nlen cs -> conn_closed cs i = true -> conn_closed cs' i = true.
+
+Lemma swf_mono cs cs' y : cmono cs cs' -> swf cs y -> swf cs' y.
+Proof.
+  intros (Hl & Hm) (H1 & H2 & H3). split; [|split; [exact H2|]].
+  - intros Hc. specialize (H1 Hc). rewrite forallb_forall in *. rewrite Forall_forall in H3.
+    intros i Hi. apply Hm; [now apply H3|now apply H1].
+  - eapply Forall_impl; [|exact H3]. intros i Hi. cbv beta in *. lia.
+Qed.
+
+Lemma cmono_nupd cs c f :
+  (forall x, nnth c cs = Some x -> c_st x = Closed -> c_st (f x) = Closed) -> cmono cs (nupd c f cs).
+Proof.
+  intros Hf. split; [rewrite nlen_nupd; lia|]. intros i _. unfold conn_closed. rewrite nnth_nupd.
+  destruct (N.eqb_spec i c) as [->|]; [|auto].
+  destruct (nnth c cs) as [x|] eqn:E; cbn [option_map]; [|auto].
+  intros Hx. rewrite (Hf x eq_refl); [reflexivity|]. destruct (c_st x); cbn in Hx; congruence.
+Qed.
+Lemma cmono_refl cs : cmono cs cs.
+Proof. split; [lia|auto]. Qed.
+Lemma cmono_trans a b c : cmono a b -> cmono b c -> cmono a c.
+Proof. intros (L1 & H1) (L2 & H2). split; [lia|]. intros i Hi H. apply H2; [lia|]. now apply H1. Qed.
+Lemma cmono_snoc cs x : cmono cs (cs ++ [x]).
+Proof.
+  split; [rewrite nlen_app; cbn [nlen]; lia|]. intros i Hi. unfold conn_closed. rewrite nnth_snoc.
+  destruct (N.eqb_spec i (nlen cs)); [lia|auto].
+Qed.
+Lemma cmono_cancel_conns ids cs : cmono cs (cancel_conns ids cs).
+Proof.
+  revert cs; induction ids as [|i t IH]; intros cs; cbn [cancel_conns]; [apply cmono_refl|].
+  eapply cmono_trans; [|apply IH]. apply cmono_nupd. intros x _ Hx. unfold cancel_conn. now rewrite Hx.
+Qed.
+Lemma cmono_map_cancel cs : cmono cs (map cancel_conn cs).
+Proof.
+  split; [rewrite nlen_map; lia|]. intros i _. unfold conn_closed. rewrite nnth_map.
+  destruct (nnth i cs) as [x|]; cbn [option_map]; [|auto]. unfold cancel_conn. destruct (c_st x) eqn:E; cbn; rewrite ?E; auto.
+Qed.
+
+Lemma cwf_nupd ss cs c f :
+  (forall i x, nnth i cs = Some x -> cwf ss i x) ->
+  (forall x, nnth c cs = Some x -> cwf ss c (f x)) ->
+  forall i x', nnth i (nupd c f cs) = Some x' -> cwf ss i x'.
+Proof.
+  intros H Hf i x'. rewrite nnth_nupd. destruct (N.eqb_spec i c) as [->|]; [|apply H].
+  destruct (nnth c cs) as [x|] eqn:E; cbn [option_map]; [|discriminate]. intros Hx. inversion Hx; subst. now apply Hf.
+Qed.
+
+Lemma cwf_sess_nupd ss s g c x :
+  (forall y, nnth s ss = Some y -> incl (s_conns y) (s_conns (g y))) -> cwf ss c x -> cwf (nupd s g ss) c x.
+Proof.
+  intros Hg (H1 & H2 & H3 & H4). repeat split; auto. intros s' Hs'. destruct (H4 _ Hs') as (y & Hy & Hin).
+  rewrite nnth_nupd. destruct (N.eqb_spec s' s) as [->|]; [|eauto].
+  rewrite Hy. cbn [option_map]. eexists; split; [reflexivity|]. now apply (Hg _ Hy).
+Qed.
+
+Lemma cwf_sess_snoc ss y c x : cwf ss c x -> cwf (ss ++ [y]) c x.
+Proof.
+  intros (H1 & H2 & H3 & H4). repeat split; auto. intros s' Hs'. destruct (H4 _ Hs') as (y' & Hy & Hin).
+  exists y'. split; [now apply nnth_app_l|exact Hin].
+Qed.
+
+Lemma swf_nupd cs ss s g :
+  (forall i y, nnth i ss = Some y -> swf cs y) ->
+  (forall y, nnth s ss = Some y -> swf cs (g y)) ->
+  forall i y', nnth i (nupd s g ss) = Some y' -> swf cs y'.
+Proof.
+  intros H Hg i y'. rewrite nnth_nupd. destruct (N.eqb_spec i s) as [->|]; [|apply H].
+  destruct (nnth s ss) as [y|] eqn:E; cbn [option_map]; [|discriminate]. intros Hy. inversion Hy; subst. now apply Hg.
+Qed.
+
+Lemma In_remv x y l : In y l -> y <> x -> In y (remv x l).
+Proof.
+  induction l as [|z t IH]; cbn [remv In]; [tauto|]. intros [->|Hin] Hne.
+  - destruct (N.eqb_spec x y); [congruence|now left].
+  - destruct (x =? z); [auto|right; auto].
+Qed.
+Lemma remv_incl x l : incl (remv x l) l.
+Proof.
+  induction l as [|z t IH]; cbn [remv]; [apply incl_refl|]. destruct (x =? z).
+  - now apply incl_tl.
+  - intros a [->|Ha]; [now left|right; now apply IH].
+Qed.
+
+Lemma forallb_incl {A} (p : A -> bool) l l' : incl l' l -> forallb p l = true -> forallb p l' = true.
+Proof. intros Hi H. rewrite forallb_forall in *. auto. Qed.
+Lemma Forall_incl {A} (P : A -> Prop) l l' : incl l' l -> Forall P l -> Forall P l'.
+Proof. intros Hi H. rewrite Forall_forall in *. auto. Qed.
+
+Lemma cwf_cancel ss c x : cwf ss c x -> cwf ss c (cancel_conn x).
+Proof.
+  unfold cancel_conn. destruct (c_st x) eqn:E; auto. intros (H1 & H2 & H3 & H4).
+  repeat split; auto. cbn. discriminate.
+Qed.
+Lemma cwf_cancel_conns ss ids cs :
+  (forall i x, nnth i cs = Some x -> cwf ss i x) -> forall i x, nnth i (cancel_conns ids cs) = Some x -> cwf ss i x.
+Proof.
+  revert cs; induction ids as [|j t IH]; intros cs H; cbn [cancel_conns]; [exact H|].
+  apply IH. apply cwf_nupd; [exact H|]. intros x Hx. apply cwf_cancel. eauto.
+Qed.
+
+Ltac lsplit := match goal with |- linv _ => split; cbn [conns sesss] end.
+
+(* every step preserves the structural invariant *)
+Lemma linv_step st s st' : linv st -> step st s = Some st' -> linv st'.
+Proof.
+  intros (HC & HS) H.
+  assert (HSm : forall cs', cmono (conns st) cs' -> forall s y, nnth s (sesss st) = Some y -> swf cs' y)
+    by (intros cs' Hm s0 y Hy; eapply swf_mono; eauto).
+  destruct s; cbn [step] in H.
+  - (* Accept *) destruct (sv st); try discriminate. inversion H; subst. lsplit.
+    + intros c x. rewrite nnth_snoc. destruct (N.eqb_spec c (nlen (conns st))) as [->|]; [|apply HC].
+      intros Hx; inversion Hx; subst. repeat split; cbn; try discriminate; auto; congruence.
+    + apply HSm. apply cmono_snoc.
+  - (* NewSession *) destruct (sv st); try discriminate.
+    destruct (nnth c (conns st)) as [[[| |] r [s0|] [b|]]|] eqn:Ec; try discriminate. inversion H; subst. lsplit.
+    + apply cwf_nupd.
+      * intros i x Hx. apply cwf_sess_snoc. now apply HC.
+      * intros x Hx. rewrite Ec in Hx. inversion Hx; subst. destruct (HC _ _ Ec) as (H1 & H2 & H3 & H4).
+        repeat split; cbn in *; auto; try discriminate. intros s Hs. inversion Hs; subst.
+        exists (mkSess Open [c] 0 false 0). split; [|now left]. rewrite nnth_snoc. now rewrite N.eqb_refl.
+    + intros s y. rewrite nnth_snoc. destruct (N.eqb_spec s (nlen (sesss st))) as [->|].
+      * intros Hy; inversion Hy; subst. repeat split; cbn; try discriminate; auto.
+        constructor; [|constructor]. rewrite nlen_nupd. now apply nnth_lt_Some in Ec.
+      * intros Hy. eapply swf_mono; [|apply (HS _ _ Hy)]. apply cmono_nupd. intros x Hx. rewrite Ec in Hx. inversion Hx; subst. cbn. discriminate.
+  - (* Attach *) destruct (nnth c (conns st)) as [[[| |] r [s0|] [b|]]|] eqn:Ec; try discriminate.
+    destruct (nnth s (sesss st)) as [[[| |] cs w m n]|] eqn:Ess; try discriminate. inversion H; subst. lsplit.
+    + apply cwf_nupd.
+      * intros i x Hx. apply cwf_sess_nupd; [|now apply HC]. intros y Hy. rewrite Ess in Hy. inversion Hy; subst. cbn. now apply incl_tl, incl_refl.
+      * intros x Hx. rewrite Ec in Hx. inversion Hx; subst. repeat split; cbn; auto; try discriminate.
+        intros s' Hs'. inversion Hs'; subst. rewrite nnth_nupd, N.eqb_refl, Ess. cbn. eexists; split; [reflexivity|now left].
+    + apply swf_nupd.
+      * intros i y Hy. eapply swf_mono; [|apply (HS _ _ Hy)]. apply cmono_nupd. intros x Hx. rewrite Ec in Hx. inversion Hx; subst. cbn. discriminate.
+      * intros y Hy. rewrite Ess in Hy. inversion Hy; subst. destruct (HS _ _ Ess) as (H1 & H2 & H3). repeat split; cbn in *; auto; try discriminate.
+        constructor; [rewrite nlen_nupd; now apply nnth_lt_Some in Ec|]. eapply Forall_impl; [|exact H3]. intros; cbv beta in *. now rewrite nlen_nupd.
+  - (* Request *) destruct (nnth c (conns st)) as [[[| |] r ss [b|]]|]; try discriminate; inversion H; subst; split; auto.
+  - (* RequestS *) destruct (nnth c (conns st)) as [[[| |] r [s0|] [b|]]|]; try discriminate.
+    destruct (nnth s (sesss st)) as [[[| |] cs w m n]|]; try discriminate.
+    destruct (s0 =? s); [|discriminate]. inversion H; subst. split; auto.
+  - (* Play *) destruct (nnth s (sesss st)) as [[[| |] cs w m n]|] eqn:Ess; try discriminate. inversion H; subst. lsplit.
+    + intros c x Hx. apply cwf_sess_nupd; [|now apply HC]. intros y Hy. rewrite Ess in Hy. inversion Hy; subst. apply incl_refl.
+    + apply swf_nupd; [exact HS|]. intros y Hy. rewrite Ess in Hy. inversion Hy; subst. destruct (HS _ _ Ess) as (H1 & H2 & H3).
+      repeat split; cbn in *; auto; try discriminate.
+  - (* Pause *) destruct (nnth s (sesss st)) as [[[| |] cs w m [|n]]|] eqn:Ess; try discriminate. inversion H; subst. lsplit.
+    + intros c x Hx. apply cwf_sess_nupd; [|now apply HC]. intros y Hy. rewrite Ess in Hy. inversion Hy; subst. apply incl_refl.
+    + apply swf_nupd; [exact HS|]. intros y Hy. rewrite Ess in Hy. inversion Hy; subst. destruct (HS _ _ Ess) as (H1 & H2 & H3).
+      repeat split; cbn in *; auto; try discriminate.
+  - (* Packet *) destruct (nnth s (sesss st)) as [[[| |] cs w [|] n]|]; try discriminate; inversion H; subst; split; auto.
+  - (* PacketBegin *) destruct (nnth c (conns st)) as [[o [|] [s|] [b|]]|] eqn:Ec; try discriminate. inversion H; subst. lsplit.
+    + apply cwf_nupd; [exact HC|]. intros x Hx. rewrite Ec in Hx. inversion Hx; subst. destruct (HC _ _ Ec) as (H1 & H2 & H3 & H4).
+      repeat split; cbn in *; auto; try (intros; congruence).
+    + apply HSm. apply cmono_nupd. intros x Hx. rewrite Ec in Hx. inversion Hx; subst. cbn. auto.
+  - (* PacketEnd *) destruct (nnth c (conns st)) as [[o r ss [s|]]|] eqn:Ec; try discriminate. inversion H; subst. lsplit.
+    + apply cwf_nupd; [exact HC|]. intros x Hx. rewrite Ec in Hx. inversion Hx; subst. destruct (HC _ _ Ec) as (H1 & H2 & H3 & H4).
+      repeat split; cbn in *; auto; try congruence; try discriminate.
+    + apply HSm. apply cmono_nupd. intros x Hx. rewrite Ec in Hx. inversion Hx; subst. cbn. auto.
+  - (* SBegin *) destruct (nnth s (sesss st)) as [[[| |] cs w [|] n]|] eqn:Ess; try discriminate; inversion H; subst; lsplit;
+      try (intros c x Hx; apply cwf_sess_nupd; [|now apply HC]; intros y Hy; rewrite Ess in Hy; inversion Hy; subst; apply incl_refl);
+      (apply swf_nupd; [exact HS|]; intros y Hy; rewrite Ess in Hy; inversion Hy; subst; destruct (HS _ _ Ess) as (H1 & H2 & H3);
+       repeat split; cbn in *; auto; try discriminate).
+  - (* SEnd *) destruct (nnth s (sesss st)) as [[o cs w m n]|] eqn:Ess; try discriminate.
+    destruct (N.ltb_spec 0 n); [|discriminate]. inversion H; subst. lsplit.
+    + intros c x Hx. apply cwf_sess_nupd; [|now apply HC]. intros y Hy. rewrite Ess in Hy. inversion Hy; subst. apply incl_refl.
+    + apply swf_nupd; [exact HS|]. intros y Hy. rewrite Ess in Hy. inversion Hy; subst. destruct (HS _ _ Ess) as (H1 & H2 & H3).
+      repeat split; cbn in *; auto. intros Hm. specialize (H2 Hm). lia.
+  - (* Teardown *) destruct (nnth c (conns st)) as [[[| |] r [s0|] [b|]]|] eqn:Ec; try discriminate.
+    destruct (nnth s (sesss st)) as [[[| |] cs w m n]|] eqn:Ess; try discriminate.
+    destruct (N.eqb_spec s0 s) as [->|]; [|discriminate]. inversion H; subst. lsplit.
+    + apply cwf_cancel_conns. intros i x. rewrite nnth_nupd. destruct (N.eqb_spec i c) as [->|Hne].
+      * rewrite Ec. cbn [option_map]. intros Hx; inversion Hx; subst. repeat split; cbn; auto; try discriminate; congruence.
+      * intros Hx. destruct (HC _ _ Hx) as (H1 & H2 & H3 & H4). repeat split; auto. intros s' Hs'.
+        destruct (H4 _ Hs') as (y & Hy & Hin). rewrite nnth_nupd. destruct (N.eqb_spec s' s) as [->|]; [|eauto].
+        rewrite Ess in Hy. inversion Hy; subst. rewrite Ess. cbn [option_map s_conns] in *. eexists; split; [reflexivity|]. now apply In_remv.
+    + apply swf_nupd.
+      * intros i y Hy. eapply swf_mono; [|apply (HS _ _ Hy)]. eapply cmono_trans; [|apply cmono_cancel_conns].
+        apply cmono_nupd. intros x Hx. rewrite Ec in Hx. inversion Hx; subst. cbn. discriminate.
+      * intros y Hy. rewrite Ess in Hy. inversion Hy; subst. destruct (HS _ _ Ess) as (H1 & H2 & H3). repeat split; cbn in *; auto; try discriminate.
+        eapply Forall_incl; [apply remv_incl|]. eapply Forall_impl; [|exact H3]. intros i Hi. cbv beta in *.
+        destruct (cmono_cancel_conns (remv c cs) (nupd c (fun _ => mkConn Open r None None) (conns st))) as (Hl & _).
+        rewrite nlen_nupd in Hl. lia.
+  - (* ConnFail *) destruct (nnth c (conns st)) as [[[| |] r ss b]|] eqn:Ec; try discriminate. inversion H; subst. lsplit.
+    + apply cwf_nupd; [exact HC|]. intros x Hx. rewrite Ec in Hx. inversion Hx; subst. destruct (HC _ _ Ec) as (H1 & H2 & H3 & H4).
+      repeat split; cbn in *; auto; try discriminate.
+    + apply HSm. apply cmono_nupd. intros x Hx. rewrite Ec in Hx. inversion Hx; subst. cbn. discriminate.
+  - (* ReaderExit *) destruct (nnth c (conns st)) as [[[| |] [|] ss [b|]]|] eqn:Ec; try discriminate. inversion H; subst. lsplit.
+    + apply cwf_nupd; [exact HC|]. intros x Hx. rewrite Ec in Hx. inversion Hx; subst. destruct (HC _ _ Ec) as (H1 & H2 & H3 & H4).
+      repeat split; cbn in *; auto; try congruence.
+    + apply HSm. apply cmono_nupd. intros x Hx. rewrite Ec in Hx. inversion Hx; subst. cbn. discriminate.
+  - (* ConnFinish *) destruct (nnth c (conns st)) as [[[| |] [|] ss b]|] eqn:Ec; try discriminate. inversion H; subst. lsplit.
+    + apply cwf_nupd; [exact HC|]. intros x Hx. rewrite Ec in Hx. inversion Hx; subst. destruct (HC _ _ Ec) as (H1 & H2 & H3 & H4).
+      repeat split; cbn in *; auto.
+    + apply HSm. apply cmono_nupd. intros x Hx. rewrite Ec in Hx. inversion Hx; subst. cbn. auto.
+  - (* SessFail *) destruct (nnth s (sesss st)) as [[[| |] cs w m n]|] eqn:Ess; try discriminate. inversion H; subst. lsplit.
+    + apply cwf_cancel_conns. intros c x Hx. apply cwf_sess_nupd; [|now apply HC]. intros y Hy. rewrite Ess in Hy. inversion Hy; subst. apply incl_refl.
+    + apply swf_nupd.
+      * intros i y Hy. eapply swf_mono; [apply cmono_cancel_conns|]. now apply (HS _ _ Hy).
+      * intros y Hy. rewrite Ess in Hy. inversion Hy; subst. destruct (HS _ _ Ess) as (H1 & H2 & H3). repeat split; cbn in *; auto; try discriminate.
+        eapply Forall_impl; [|exact H3]. intros i Hi. cbv beta in *. destruct (cmono_cancel_conns cs (conns st)) as (Hl & _). lia.
+  - (* MediaStop *) destruct (nnth s (sesss st)) as [[[| |] cs w [|] [|n]]|] eqn:Ess; try discriminate.
+    destruct (forallb (conn_closed (conns st)) cs); [|discriminate]. inversion H; subst. lsplit.
+    + intros c x Hx. apply cwf_sess_nupd; [|now apply HC]. intros y Hy. rewrite Ess in Hy. inversion Hy; subst. apply incl_refl.
+    + apply swf_nupd; [exact HS|]. intros y Hy. rewrite Ess in Hy. inversion Hy; subst. destruct (HS _ _ Ess) as (H1 & H2 & H3).
+      repeat split; cbn in *; auto; try discriminate.
+  - (* WorkerExit *) destruct (nnth s (sesss st)) as [[[| |] cs w [|] n]|] eqn:Ess; try discriminate.
+    destruct ((0 <? w) && forallb (conn_closed (conns st)) cs); [|discriminate]. inversion H; subst. lsplit.
+    + intros c x Hx. apply cwf_sess_nupd; [|now apply HC]. intros y Hy. rewrite Ess in Hy. inversion Hy; subst. apply incl_refl.
+    + apply swf_nupd; [exact HS|]. intros y Hy. rewrite Ess in Hy. inversion Hy; subst. destruct (HS _ _ Ess) as (H1 & H2 & H3).
+      repeat split; cbn in *; auto; try discriminate.
+  - (* SessFinish *) destruct (nnth s (sesss st)) as [[[| |] cs [|w] [|] [|n]]|] eqn:Ess; try discriminate.
+    destruct (forallb (conn_closed (conns st)) cs) eqn:Ef; [|discriminate]. inversion H; subst. lsplit.
+    + intros c x Hx. apply cwf_sess_nupd; [|now apply HC]. intros y Hy. rewrite Ess in Hy. inversion Hy; subst. apply incl_refl.
+    + apply swf_nupd; [exact HS|]. intros y Hy. rewrite Ess in Hy. inversion Hy; subst. destruct (HS _ _ Ess) as (H1 & H2 & H3).
+      repeat split; cbn in *; auto.
+  - (* ServerClose *) destruct (sv st); try discriminate. inversion H; subst. lsplit.
+    + intros c x. rewrite nnth_map. destruct (nnth c (conns st)) as [x0|] eqn:Ec; cbn [option_map]; [|discriminate].
+      intros Hx; inversion Hx; subst. apply cwf_cancel. destruct (HC _ _ Ec) as (H1 & H2 & H3 & H4). repeat split; auto.
+      intros s' Hs'. destruct (H4 _ Hs') as (y & Hy & Hin). exists (cancel_sess y). rewrite nnth_map, Hy. split; [reflexivity|].
+      unfold cancel_sess. destruct (s_st y); exact Hin.
+    + intros s y. rewrite nnth_map. destruct (nnth s (sesss st)) as [y0|] eqn:Ess; cbn [option_map]; [|discriminate].
+      intros Hy; inversion Hy; subst. eapply swf_mono; [apply cmono_map_cancel|].
+      destruct (HS _ _ Ess) as (H1 & H2 & H3). unfold cancel_sess. destruct (s_st y0) eqn:E; repeat split; cbn; auto; try discriminate; congruence.
+  - destruct (sv st); try discriminate. destruct (0 <? listeners st); [|discriminate]. inversion H; subst. split; auto.
+  - destruct (sv st); try discriminate. destruct (listeners st =? 0); [|discriminate]. inversion H; subst. split; auto.
+Qed.
+
+(* ---------- the automaton state that mirrors a lifecycle state ---------- *)
+Definition code (o : ost) : N := match o with Closed => 2 | _ => 1 end.
+Definition bcode (b : option N) : N := match b with Some s => s + 1 | None => 0 end.
+Definition mirror (st : state) : astate :=
+  mkA (map (fun c => code (c_st c)) (conns st)) (map (fun s => code (s_st s)) (sesss st))
+      (map (fun c => bcode (c_busy c)) (conns st)) (map s_srun (sesss st)).
+
 Lemma code_cancel_conns ids cs : map (fun c => code (c_st c)) (cancel_conns ids cs) = map (fun c => code (c_st c)) cs.
 Proof.
   revert cs; induction ids as [|i t IH]; intros cs; cbn [cancel_conns]; [reflexivity|].
   rewrite IH. apply map_nupd_id. intros x _. unfold cancel_conn. destruct (c_st x) eqn:E; cbn; rewrite ?E; reflexivity.
 Qed.
-
-(* the trace of every run is a word of the automaton, and the automaton ends in the mirror of the state *)
-Definition traced (st : state) : Prop := arun (mkA [] []) (trace st) = Some (mirror st).
-
-Lemma traced_step st s st' : traced st -> step st s = Some st' -> traced st'.
+Lemma busy_cancel_conns ids cs : map (fun c => bcode (c_busy c)) (cancel_conns ids cs) = map (fun c => bcode (c_busy c)) cs.
 Proof.
-  unfold traced. intros Ht H.
-  assert (Hemit : forall x a', astep (mirror st) x = Some a' ->
-            arun (mkA [] []) (trace st ++ [x]) = Some a').
-  { intros x a' Ha. rewrite arun_app, Ht. cbn [arun]. now rewrite Ha. }
+  revert cs; induction ids as [|i t IH]; intros cs; cbn [cancel_conns]; [reflexivity|].
+  rewrite IH. apply map_nupd_id. intros x _. unfold cancel_conn. destruct (c_st x); reflexivity.
+Qed.
+
+Lemma nupd_nupd {A} i (f g : A -> A) l : nupd i g (nupd i f l) = nupd i (fun x => g (f x)) l.
+Proof.
+  revert i; induction l as [|x t IH]; intros i; cbn [nupd]; [reflexivity|].
+  destruct (i =? 0) eqn:E; cbn [nupd]; rewrite E; [reflexivity|]. now rewrite IH.
+Qed.
+Lemma nupd_id {A} i (f : A -> A) l : (forall x, nnth i l = Some x -> f x = x) -> nupd i f l = l.
+Proof.
+  revert i; induction l as [|x t IH]; intros i H; cbn [nupd]; [reflexivity|].
+  destruct (N.eqb_spec i 0) as [Hi|Hi].
+  - subst i. now rewrite (H x eq_refl).
+  - rewrite IH; [reflexivity|]. intros y Hy. apply H. cbn [nnth]. destruct (N.eqb_spec i 0); [lia|exact Hy].
+Qed.
+
+Lemma map_nupd_gen {A B} (f : A -> B) i g h l :
+  (forall x, nnth i l = Some x -> f (g x) = h (f x)) -> map f (nupd i g l) = nupd i h (map f l).
+Proof.
+  revert i; induction l as [|y t IH]; intros i Hc; cbn [nupd map]; [reflexivity|].
+  destruct (N.eqb_spec i 0) as [Hi|Hi]; cbn [map].
+  - subst i. now rewrite (Hc y eq_refl).
+  - rewrite IH; [reflexivity|]. intros x Hx. apply Hc. cbn [nnth]. destruct (N.eqb_spec i 0); [lia|exact Hx].
+Qed.
+
+Lemma astep_SE a s n : nnth s (a_srun a) = Some n -> 0 < n ->
+  astep a (CbSE s) = Some (mkA (a_conns a) (a_sesss a) (a_cbusy a) (nupd s N.pred (a_srun a))).
+Proof. intros H Hn. cbn [astep]. rewrite H. destruct n; [lia|reflexivity]. Qed.
+
+Lemma astep_SB a s : nnth s (a_sesss a) = Some 1 ->
+  astep a (CbSB s) = Some (mkA (a_conns a) (a_sesss a) (a_cbusy a) (nupd s N.succ (a_srun a))).
+Proof. intros H. cbn [astep]. now rewrite H. Qed.
+
+Lemma astep_ReqS a c s : nnth c (a_conns a) = Some 1 -> nnth s (a_sesss a) = Some 1 -> astep a (CbReqS c s) = Some a.
+Proof. intros H1 H2. cbn [astep]. now rewrite H1, H2. Qed.
+
+Lemma arun_SB_SE a s n : nnth s (a_sesss a) = Some 1 -> nnth s (a_srun a) = Some n -> arun a [CbSB s; CbSE s] = Some a.
+Proof.
+  intros H1 H2. cbn [arun]. rewrite (astep_SB _ _ H1).
+  rewrite (astep_SE _ s (N.succ n)); [|cbn [a_srun]; now rewrite (nnth_nupd_same _ _ _ _ H2)|lia].
+  cbn [a_conns a_sesss a_cbusy a_srun]. rewrite nupd_nupd. rewrite nupd_id; [now destruct a|]. intros x Hx. lia.
+Qed.
+
+Definition traced (st : state) : Prop := arun a0 (trace st) = Some (mirror st).
+
+Lemma nnth_tail_eq {A} (y : A) t i x : nnth i t = Some x -> nnth (i + 1) (y :: t) = Some x.
+Proof. intros H. cbn [nnth]. destruct (N.eqb_spec (i + 1) 0); [lia|]. now replace (N.pred (i + 1)) with i by lia. Qed.
+
+Lemma In_nnth {A} (l : list A) x : In x l -> exists i, nnth i l = Some x.
+Proof.
+  induction l as [|y t IH]; intros H; [contradiction|]. destruct H as [->|H].
+  - exists 0. reflexivity.
+  - destruct (IH H) as (i & Hi). exists (i + 1). apply nnth_tail_eq. exact Hi.
+Qed.
+
+Ltac same E := symmetry; apply map_nupd_id; let x := fresh "x" in let Hx := fresh "Hx" in
+               intros x Hx; rewrite E in Hx; inversion Hx; subst; reflexivity.
+
+Lemma traced_step st s st' : linv st -> traced st -> step st s = Some st' -> traced st'.
+Proof.
+  unfold traced. intros (HC & HS) Ht H.
+  assert (Hemit : forall xs a', arun (mirror st) xs = Some a' -> arun a0 (trace st ++ xs) = Some a').
+  { intros xs a' Ha. now rewrite arun_app, Ht. }
   destruct s; cbn [step] in H.
   - (* Accept *) destruct (sv st) eqn:Es; try discriminate. inversion H; subst. cbn [trace]. unfold emit.
-    apply Hemit. cbn [astep mirror a_conns a_sesss]. rewrite nlen_map, N.eqb_refl.
-    unfold mirror. cbn [conns sesss]. now rewrite map_app.
+    apply Hemit. cbn [arun astep mirror a_conns a_sesss a_cbusy a_srun]. rewrite nlen_map, N.eqb_refl.
+    unfold mirror. cbn [conns sesss]. now rewrite !map_app.
   - (* NewSession *) destruct (sv st) eqn:Es; try discriminate.
-    destruct (nnth c (conns st)) as [[[| |] r [s0|]]|] eqn:Ec; try discriminate. inversion H; subst. cbn [trace]. unfold emit.
-    apply Hemit. cbn [astep mirror a_conns a_sesss]. rewrite nnth_map, Ec. cbn [option_map c_st code].
-    rewrite nlen_map, N.eqb_refl. unfold mirror. cbn [conns sesss]. rewrite map_app. f_equal. f_equal.
-    symmetry. apply map_nupd_id. intros x Hx. rewrite Ec in Hx. inversion Hx; subst. reflexivity.
-  - (* Attach *) destruct (nnth c (conns st)) as [[[| |] r [s0|]]|] eqn:Ec; try discriminate.
-    destruct (nnth s (sesss st)) as [[[| |] cs w m]|] eqn:Ess; try discriminate. inversion H; subst. cbn [trace].
-    rewrite Ht. f_equal. unfold mirror. cbn [conns sesss]. f_equal.
-    + symmetry. apply map_nupd_id. intros x Hx. rewrite Ec in Hx. inversion Hx; subst. reflexivity.
-    + symmetry. apply map_nupd_id. intros x Hx. rewrite Ess in Hx. inversion Hx; subst. reflexivity.
-  - (* Request *) destruct (nnth c (conns st)) as [[[| |] r ss]|] eqn:Ec; try discriminate. inversion H; subst. cbn [trace]. unfold emit.
-    apply Hemit. cbn [astep mirror a_conns]. rewrite nnth_map, Ec. reflexivity.
-  - (* RequestS *) destruct (nnth c (conns st)) as [[[| |] r [s0|]]|] eqn:Ec; try discriminate.
-    destruct (nnth s (sesss st)) as [[[| |] cs w m]|] eqn:Ess; try discriminate.
+    destruct (nnth c (conns st)) as [[[| |] r [s0|] [b|]]|] eqn:Ec; try discriminate. inversion H; subst. cbn [trace]. unfold emit.
+    apply Hemit. cbn [arun astep mirror a_conns a_sesss a_cbusy a_srun]. rewrite nnth_map, Ec. cbn [option_map c_st code].
+    rewrite nlen_map, N.eqb_refl. unfold mirror. cbn [conns sesss]. rewrite !map_app. f_equal. f_equal; [same Ec|same Ec].
+  - (* Attach *) destruct (nnth c (conns st)) as [[[| |] r [s0|] [b|]]|] eqn:Ec; try discriminate.
+    destruct (nnth s (sesss st)) as [[[| |] cs w m n]|] eqn:Ess; try discriminate. inversion H; subst. cbn [trace].
+    rewrite Ht. f_equal. unfold mirror. cbn [conns sesss]. f_equal; [same Ec|same Ess|same Ec|same Ess].
+  - (* Request *) destruct (nnth c (conns st)) as [[[| |] r ss [b|]]|] eqn:Ec; try discriminate. inversion H; subst. cbn [trace]. unfold emit.
+    apply Hemit. cbn [arun astep mirror a_conns]. rewrite nnth_map, Ec. reflexivity.
+  - (* RequestS *) destruct (nnth c (conns st)) as [[[| |] r [s0|] [b|]]|] eqn:Ec; try discriminate.
+    destruct (nnth s (sesss st)) as [[[| |] cs w m n]|] eqn:Ess; try discriminate.
     destruct (s0 =? s); [|discriminate]. inversion H; subst. cbn [trace]. unfold emit.
-    apply Hemit. cbn [astep mirror a_conns a_sesss]. rewrite !nnth_map, Ec, Ess. reflexivity.
-  - (* Play *) destruct (nnth s (sesss st)) as [[[| |] cs w m]|] eqn:Ess; try discriminate. inversion H; subst. cbn [trace].
-    rewrite Ht. f_equal. unfold mirror. cbn [conns sesss]. f_equal.
-    symmetry. apply map_nupd_id. intros x Hx. rewrite Ess in Hx. inversion Hx; subst. reflexivity.
-  - (* Pause *) destruct (nnth s (sesss st)) as [[[| |] cs w m]|] eqn:Ess; try discriminate. inversion H; subst. cbn [trace].
-    rewrite Ht. f_equal. unfold mirror. cbn [conns sesss]. f_equal.
-    symmetry. apply map_nupd_id. intros x Hx. rewrite Ess in Hx. inversion Hx; subst. reflexivity.
-  - (* Packet *) destruct (nnth s (sesss st)) as [[[| |] cs w [|]]|] eqn:Ess; try discriminate; inversion H; subst; cbn [trace]; unfold emit;
-      apply Hemit; cbn [astep mirror a_sesss]; rewrite nnth_map, Ess; reflexivity.
-  - (* Teardown *) destruct (nnth c (conns st)) as [[[| |] r [s0|]]|] eqn:Ec; try discriminate.
-    destruct (nnth s (sesss st)) as [[[| |] cs w m]|] eqn:Ess; try discriminate.
-    destruct (s0 =? s); [|discriminate]. inversion H; subst. cbn [trace]. unfold emit.
-    rewrite arun_app, Ht. cbn [arun astep mirror a_conns a_sesss]. rewrite !nnth_map, Ec, Ess. cbn [option_map c_st s_st code].
-    f_equal. unfold mirror. cbn [conns sesss]. f_equal.
-    + rewrite code_cancel_conns. symmetry. apply map_nupd_id. intros x Hx. rewrite Ec in Hx. inversion Hx; subst. reflexivity.
-    + symmetry. apply map_nupd_id. intros x Hx. rewrite Ess in Hx. inversion Hx; subst. reflexivity.
-  - (* ConnFail *) destruct (nnth c (conns st)) as [[[| |] r ss]|] eqn:Ec; try discriminate. inversion H; subst. cbn [trace].
-    rewrite Ht. f_equal. unfold mirror. cbn [conns sesss]. f_equal.
-    symmetry. apply map_nupd_id. intros x Hx. rewrite Ec in Hx. inversion Hx; subst. reflexivity.
-  - (* ReaderExit *) destruct (nnth c (conns st)) as [[[| |] [|] ss]|] eqn:Ec; try discriminate. inversion H; subst. cbn [trace].
-    rewrite Ht. f_equal. unfold mirror. cbn [conns sesss]. f_equal.
-    symmetry. apply map_nupd_id. intros x Hx. rewrite Ec in Hx. inversion Hx; subst. reflexivity.
-  - (* ConnFinish *) destruct (nnth c (conns st)) as [[[| |] [|] ss]|] eqn:Ec; try discriminate. inversion H; subst. cbn [trace]. unfold emit.
-    apply Hemit. cbn [astep mirror a_conns a_sesss]. rewrite nnth_map, Ec. cbn [option_map c_st code].
-    unfold mirror. cbn [conns sesss]. f_equal. f_equal.
+    apply Hemit. change [CbReqS c s; CbSB s; CbSE s] with ([CbReqS c s] ++ [CbSB s; CbSE s]). rewrite arun_app.
+    cbn [arun]. rewrite astep_ReqS by (unfold mirror; cbn [a_conns a_sesss]; rewrite nnth_map, ?Ec, ?Ess; reflexivity).
+    apply (arun_SB_SE _ s n); unfold mirror; cbn [a_sesss a_srun]; rewrite nnth_map, Ess; reflexivity.
+  - (* Play *) destruct (nnth s (sesss st)) as [[[| |] cs w m n]|] eqn:Ess; try discriminate. inversion H; subst. cbn [trace].
+    rewrite Ht. f_equal. unfold mirror. cbn [conns sesss]. f_equal; [same Ess|same Ess].
+  - (* Pause *) destruct (nnth s (sesss st)) as [[[| |] cs w m [|n]]|] eqn:Ess; try discriminate. inversion H; subst. cbn [trace].
+    rewrite Ht. f_equal. unfold mirror. cbn [conns sesss]. f_equal; [same Ess|same Ess].
+  - (* Packet *) destruct (nnth s (sesss st)) as [[[| |] cs w [|] n]|] eqn:Ess; try discriminate; inversion H; subst; cbn [trace]; unfold emit;
+      apply Hemit; cbn [arun astep mirror a_sesss]; rewrite nnth_map, Ess; reflexivity.
+  - (* PacketBegin: the session is still open because it waits for this very connection *)
+    destruct (nnth c (conns st)) as [[o [|] [s|] [b|]]|] eqn:Ec; try discriminate. inversion H; subst. cbn [trace]. unfold emit.
+    destruct (HC _ _ Ec) as (H1 & H2 & H3 & H4). cbn [c_st c_reader c_sess c_busy] in *.
+    destruct (H4 s eq_refl) as (y & Hy & Hin). destruct (HS _ _ Hy) as (S1 & S2 & S3).
+    assert (Ho : code o = 1) by (destruct o; try reflexivity; specialize (H2 eq_refl); discriminate).
+    assert (Hys : code (s_st y) = 1).
+    { destruct (s_st y) eqn:Ey; try reflexivity. exfalso. specialize (S1 eq_refl). rewrite forallb_forall in S1.
+      specialize (S1 _ Hin). unfold conn_closed in S1. rewrite Ec in S1. cbn [c_st] in S1.
+      destruct o; try discriminate; try (specialize (H2 eq_refl); discriminate). }
+    apply Hemit. cbn [arun astep mirror a_conns a_sesss a_cbusy a_srun]. rewrite !nnth_map, Ec, Hy. cbn [option_map c_st c_busy bcode].
+    rewrite Ho, Hys. f_equal. unfold mirror. cbn [conns sesss]. f_equal; [same Ec|].
     symmetry. apply map_nupd. intros x. reflexivity.
-  - (* SessFail *) destruct (nnth s (sesss st)) as [[[| |] cs w m]|] eqn:Ess; try discriminate. inversion H; subst. cbn [trace].
-    rewrite Ht. f_equal. unfold mirror. cbn [conns sesss]. f_equal.
-    + now rewrite code_cancel_conns.
-    + symmetry. apply map_nupd_id. intros x Hx. rewrite Ess in Hx. inversion Hx; subst. reflexivity.
-  - (* MediaStop *) destruct (nnth s (sesss st)) as [[[| |] cs w [|]]|] eqn:Ess; try discriminate.
+  - (* PacketEnd *) destruct (nnth c (conns st)) as [[o r ss [s|]]|] eqn:Ec; try discriminate. inversion H; subst. cbn [trace]. unfold emit.
+    apply Hemit. cbn [arun astep mirror a_cbusy]. rewrite nnth_map, Ec. cbn [option_map c_busy bcode].
+    destruct (s + 1) eqn:E1; [lia|]. f_equal. unfold mirror. cbn [conns sesss]. f_equal; [same Ec|].
+    symmetry. apply map_nupd. intros x. reflexivity.
+  - (* SBegin *)
+    assert (Hgo : forall o cs w n, nnth s (sesss st) = Some (mkSess o cs w true n) -> code o = 1 ->
+      arun a0 ((trace st) ++ [CbSB s]) =
+      Some (mirror (mkSt (sv st) (listeners st) (conns st) (nupd s (fun _ => mkSess o cs w true (n + 1)) (sesss st)) (trace st ++ [CbSB s])))).
+    { intros o cs w n Ess Ho. apply Hemit. cbn [arun astep mirror a_sesss]. rewrite nnth_map, Ess. cbn [option_map s_st]. rewrite Ho.
+      f_equal. unfold mirror. cbn [conns sesss]. f_equal; [same Ess|].
+      symmetry. rewrite (map_nupd_gen s_srun s (fun _ => mkSess o cs w true (n + 1)) N.succ); [reflexivity|].
+      intros x Hx. rewrite Ess in Hx. inversion Hx; subst. cbn. lia. }
+    destruct (nnth s (sesss st)) as [[[| |] cs w [|] n]|] eqn:Ess; try discriminate; inversion H; subst; cbn [trace]; unfold emit;
+      apply (Hgo _ _ _ _ eq_refl); reflexivity.
+  - (* SEnd *) destruct (nnth s (sesss st)) as [[o cs w m n]|] eqn:Ess; try discriminate.
+    destruct (N.ltb_spec 0 n); [|discriminate]. inversion H; subst. cbn [trace]. unfold emit.
+    apply Hemit. cbn [arun]. rewrite (astep_SE _ s n); [|unfold mirror; cbn [a_srun]; now rewrite nnth_map, Ess|assumption].
+    f_equal. unfold mirror. cbn [conns sesss a_conns a_sesss a_cbusy a_srun]. f_equal; [same Ess|].
+    symmetry. apply map_nupd_gen. intros x Hx. rewrite Ess in Hx. inversion Hx; subst. reflexivity.
+  - (* Teardown *) destruct (nnth c (conns st)) as [[[| |] r [s0|] [b|]]|] eqn:Ec; try discriminate.
+    destruct (nnth s (sesss st)) as [[[| |] cs w m n]|] eqn:Ess; try discriminate.
+    destruct (s0 =? s); [|discriminate]. inversion H; subst. cbn [trace]. unfold emit.
+    assert (Hm : mirror (mkSt (sv st) (listeners st) (cancel_conns (remv c cs) (nupd c (fun _ => mkConn Open r None None) (conns st)))
+                   (nupd s (fun _ => mkSess Closing (remv c cs) w m n) (sesss st)) (trace st ++ [CbReqS c s; CbSB s; CbSE s])) = mirror st).
+    { unfold mirror. cbn [conns sesss]. rewrite code_cancel_conns, busy_cancel_conns. f_equal.
+      - apply map_nupd_id. intros x Hx. rewrite Ec in Hx. inversion Hx; subst. reflexivity.
+      - apply map_nupd_id. intros x Hx. rewrite Ess in Hx. inversion Hx; subst. reflexivity.
+      - apply map_nupd_id. intros x Hx. rewrite Ec in Hx. inversion Hx; subst. reflexivity.
+      - apply map_nupd_id. intros x Hx. rewrite Ess in Hx. inversion Hx; subst. reflexivity. }
+    rewrite Hm. apply Hemit. change [CbReqS c s; CbSB s; CbSE s] with ([CbReqS c s] ++ [CbSB s; CbSE s]). rewrite arun_app.
+    cbn [arun]. rewrite astep_ReqS by (unfold mirror; cbn [a_conns a_sesss]; rewrite nnth_map, ?Ec, ?Ess; reflexivity).
+    apply (arun_SB_SE _ s n); unfold mirror; cbn [a_sesss a_srun]; rewrite nnth_map, Ess; reflexivity.
+  - (* ConnFail *) destruct (nnth c (conns st)) as [[[| |] r ss b]|] eqn:Ec; try discriminate. inversion H; subst. cbn [trace].
+    rewrite Ht. f_equal. unfold mirror. cbn [conns sesss]. f_equal; [same Ec|same Ec].
+  - (* ReaderExit *) destruct (nnth c (conns st)) as [[[| |] [|] ss [b|]]|] eqn:Ec; try discriminate. inversion H; subst. cbn [trace].
+    rewrite Ht. f_equal. unfold mirror. cbn [conns sesss]. f_equal; [same Ec|same Ec].
+  - (* ConnFinish: the reader has been waited for, so it is in no callback *)
+    destruct (nnth c (conns st)) as [[[| |] [|] ss b]|] eqn:Ec; try discriminate. inversion H; subst. cbn [trace]. unfold emit.
+    assert (Hb : b = None).
+    { destruct (HC _ _ Ec) as (H1 & _). cbn [c_reader c_busy] in H1. destruct b; [|reflexivity]. discriminate H1. discriminate. }
+    subst b.
+    apply Hemit. cbn [arun astep mirror a_conns a_sesss a_cbusy a_srun]. rewrite !nnth_map, Ec. cbn [option_map c_st c_busy code bcode].
+    f_equal. unfold mirror. cbn [conns sesss]. f_equal; [|same Ec].
+    symmetry. apply map_nupd. intros x. reflexivity.
+  - (* SessFail *) destruct (nnth s (sesss st)) as [[[| |] cs w m n]|] eqn:Ess; try discriminate. inversion H; subst. cbn [trace].
+    rewrite Ht. f_equal. unfold mirror. cbn [conns sesss]. rewrite code_cancel_conns, busy_cancel_conns. f_equal; [same Ess|same Ess].
+  - (* MediaStop *) destruct (nnth s (sesss st)) as [[[| |] cs w [|] [|n]]|] eqn:Ess; try discriminate.
     destruct (forallb (conn_closed (conns st)) cs); [|discriminate]. inversion H; subst. cbn [trace].
-    rewrite Ht. f_equal. unfold mirror. cbn [conns sesss]. f_equal.
-    symmetry. apply map_nupd_id. intros x Hx. rewrite Ess in Hx. inversion Hx; subst. reflexivity.
-  - (* WorkerExit *) destruct (nnth s (sesss st)) as [[[| |] cs w [|]]|] eqn:Ess; try discriminate.
+    rewrite Ht. f_equal. unfold mirror. cbn [conns sesss]. f_equal; [same Ess|same Ess].
+  - (* WorkerExit *) destruct (nnth s (sesss st)) as [[[| |] cs w [|] n]|] eqn:Ess; try discriminate.
     destruct ((0 <? w) && forallb (conn_closed (conns st)) cs); [|discriminate]. inversion H; subst. cbn [trace].
-    rewrite Ht. f_equal. unfold mirror. cbn [conns sesss]. f_equal.
-    symmetry. apply map_nupd_id. intros x Hx. rewrite Ess in Hx. inversion Hx; subst. reflexivity.
-  - (* SessFinish *) destruct (nnth s (sesss st)) as [[[| |] cs [|w] [|]]|] eqn:Ess; try discriminate.
-    destruct (forallb (conn_closed (conns st)) cs); [|discriminate]. inversion H; subst. cbn [trace]. unfold emit.
-    apply Hemit. cbn [astep mirror a_conns a_sesss]. rewrite nnth_map, Ess. cbn [option_map s_st code].
-    unfold mirror. cbn [conns sesss]. f_equal. f_equal.
+    rewrite Ht. f_equal. unfold mirror. cbn [conns sesss]. f_equal; [same Ess|same Ess].
+  - (* SessFinish: every attached connection is closed, hence no reader is inside a callback of this session *)
+    destruct (nnth s (sesss st)) as [[[| |] cs [|w] [|] [|n]]|] eqn:Ess; try discriminate.
+    destruct (forallb (conn_closed (conns st)) cs) eqn:Ef; [|discriminate]. inversion H; subst. cbn [trace]. unfold emit.
+    apply Hemit. cbn [arun astep mirror a_conns a_sesss a_cbusy a_srun]. rewrite !nnth_map, Ess. cbn [option_map s_st s_srun code].
+    assert (Hnb : forallb (fun b => negb (b =? s + 1)) (map (fun c => bcode (c_busy c)) (conns st)) = true).
+    { rewrite forallb_map. apply forallb_forall. intros x Hx. destruct (In_nnth _ _ Hx) as (c & Hc).
+      destruct (c_busy x) as [s'|] eqn:Eb; cbn [bcode]; [|destruct (N.eqb_spec 0 (s + 1)); [lia|reflexivity]].
+      destruct (N.eqb_spec (s' + 1) (s + 1)) as [Heq|]; [|reflexivity]. assert (s' = s) by lia. subst s'. exfalso.
+      destruct (HC _ _ Hc) as (H1 & H2 & H3 & H4). pose proof (H3 _ Eb) as Hs. destruct (H4 _ Hs) as (y & Hy & Hin).
+      rewrite Ess in Hy. inversion Hy; subst. cbn [s_conns] in Hin. rewrite forallb_forall in Ef. specialize (Ef _ Hin).
+      unfold conn_closed in Ef. rewrite Hc in Ef. assert (c_st x = Closed) by (destruct (c_st x); cbn in Ef; congruence).
+      specialize (H2 H0). rewrite H1 in H2; [discriminate|congruence]. }
+    rewrite Hnb. f_equal. unfold mirror. cbn [conns sesss]. f_equal; [|same Ess].
     symmetry. apply map_nupd. intros x. reflexivity.
   - (* ServerClose *) destruct (sv st); try discriminate. inversion H; subst. cbn [trace].
     rewrite Ht. f_equal. unfold mirror. cbn [conns sesss]. rewrite !map_map. f_equal.
     + apply map_ext. intros x. unfold cancel_conn. destruct (c_st x) eqn:E; cbn; rewrite ?E; reflexivity.
     + apply map_ext. intros x. unfold cancel_sess. destruct (s_st x) eqn:E; cbn; rewrite ?E; reflexivity.
+    + apply map_ext. intros x. unfold cancel_conn. destruct (c_st x); reflexivity.
+    + apply map_ext. intros x. unfold cancel_sess. destruct (s_st x); reflexivity.
   - (* ListenerExit *) destruct (sv st); try discriminate. destruct (0 <? listeners st); [|discriminate].
     inversion H; subst. exact Ht.
   - (* ServerFinish *) destruct (sv st); try discriminate. destruct (listeners st =? 0); [|discriminate].
     inversion H; subst. exact Ht.
 Qed.
 
-Lemma traced_exec steps : forall st st', traced st -> exec st steps = Some st' -> traced st'.
+Lemma traced_exec steps : forall st st', linv st -> traced st -> exec st steps = Some st' -> linv st' /\ traced st'.
 Proof.
-  induction steps as [|s t IH]; intros st st' Ht H; cbn [exec] in H; [inversion H; now subst|].
-  destruct (step st s) as [st1|] eqn:E; [|discriminate]. eapply IH; [|exact H]. eapply traced_step; eauto.
+  induction steps as [|s t IH]; intros st st' Hl Ht H; cbn [exec] in H; [inversion H; subst; auto|].
+  destruct (step st s) as [st1|] eqn:E; [|discriminate].
+  eapply IH; [| |exact H]; [eapply linv_step; eauto|eapply traced_step; eauto].
 Qed.
 
+Lemma linv_init n : linv (init n).
+Proof. split; cbn; intros; discriminate. Qed.
 Lemma traced_init n : traced (init n).
 Proof. reflexivity. Qed.
 
 (* every handler-callback sequence the model can produce is a legal word *)
 Theorem trace_accepted n steps st : exec (init n) steps = Some st -> accept (trace st) = true.
 Proof.
-  intros H. pose proof (traced_exec _ _ _ (traced_init n) H) as Ht. unfold accept. unfold traced in Ht. now rewrite Ht.
+  intros H. destruct (traced_exec _ _ _ (linv_init n) (traced_init n) H) as (_ & Ht). unfold accept. unfold traced in Ht. now rewrite Ht.
 Qed.
 
 (* when Server.Close has returned, every opened connection and session has had its close callback *)
 Theorem balanced_when_all_closed n steps st :
   exec (init n) steps = Some st -> all_closed st = true ->
-  exists a, arun (mkA [] []) (trace st) = Some a /\ abalanced a = true.
+  exists a, arun a0 (trace st) = Some a /\ abalanced a = true.
 Proof.
-  intros H Hc. pose proof (traced_exec _ _ _ (traced_init n) H) as Ht. exists (mirror st). split; [exact Ht|].
+  intros H Hc. destruct (traced_exec _ _ _ (linv_init n) (traced_init n) H) as (_ & Ht). exists (mirror st). split; [exact Ht|].
   unfold all_closed in Hc. apply andb_prop in Hc. destruct Hc as (Hc & Hs). apply andb_prop in Hc. destruct Hc as (_ & Hc).
   unfold abalanced, mirror. cbn [a_conns a_sesss]. rewrite !forallb_map. apply andb_true_intro. split.
   - rewrite forallb_forall in *. intros x Hx. specialize (Hc x Hx). destruct (c_st x); cbn in *; congruence.
@@ -209,95 +580,230 @@ Qed.
 (* ---------- properties of the automaton's language ---------- *)
 Definition about_sess (s : N) (x : cb) : bool :=
   match x with
-  | CbSessOpen s' _ | CbSessClose s' | CbReqS _ s' | CbPkt s' => s' =? s
+  | CbSessOpen s' _ | CbSessClose s' | CbReqS _ s' | CbPkt s' | CbPktB _ s' | CbSB s' | CbSE s' => s' =? s
   | _ => false
   end.
 Definition about_conn (c : N) (x : cb) : bool :=
   match x with
-  | CbConnOpen c' | CbConnClose c' | CbReq c' | CbReqS c' _ => c' =? c
+  | CbConnOpen c' | CbConnClose c' | CbReq c' | CbReqS c' _ | CbPktB c' _ | CbPktE c' => c' =? c
   | CbSessOpen _ c' => c' =? c
   | _ => false
   end.
 
-Lemma astep_sess_closed_stays a x a' s :
-  astep a x = Some a' -> nnth s (a_sesss a) = Some 2 -> nnth s (a_sesss a') = Some 2 /\ about_sess s x = false.
+(* what the automaton's counters mean: the callbacks begun and not yet returned *)
+Definition busyv (a : astate) (c : N) : N := match nnth c (a_cbusy a) with Some v => v | None => 0 end.
+Definition srunv (a : astate) (s : N) : N := match nnth s (a_srun a) with Some v => v | None => 0 end.
+(* after the word w: 0 if the reader of c is in no packet callback, s + 1 if it is in one of session s *)
+Definition pend_conn (c : N) (v : N) (x : cb) : N :=
+  match x with
+  | CbPktB c' s => if c' =? c then s + 1 else v
+  | CbPktE c' => if c' =? c then 0 else v
+  | _ => v
+  end.
+(* the number of other callbacks of session s begun and not yet returned *)
+Definition pend_sess (s : N) (v : N) (x : cb) : N :=
+  match x with
+  | CbSB s' => if s' =? s then N.succ v else v
+  | CbSE s' => if s' =? s then N.pred v else v
+  | _ => v
+  end.
+
+Lemma nnth_nupd_default (l : list N) i j f :
+  match nnth j (nupd i f l) with Some v => v | None => 0 end =
+  if j =? i then match nnth j l with Some v => f v | None => 0 end else match nnth j l with Some v => v | None => 0 end.
+Proof. rewrite nnth_nupd. destruct (j =? i); [|reflexivity]. destruct (nnth j l); reflexivity. Qed.
+Lemma nnth_snoc_default (l : list N) j : 
+  match nnth j (l ++ [0]) with Some v => v | None => 0 end = match nnth j l with Some v => v | None => 0 end.
 Proof.
-  intros H Hs. destruct x; cbn [astep about_sess] in *.
-  - destruct (c =? nlen (a_conns a)); inversion H; subst. auto.
+  rewrite nnth_snoc. destruct (N.eqb_spec j (nlen l)) as [->|]; [|reflexivity]. now rewrite (nnth_ge l (nlen l)) by lia.
+Qed.
+
+Lemma nnth_In {A} (l : list A) : forall i x, nnth i l = Some x -> In x l.
+Proof.
+  induction l as [|y t IH]; intros i x H; cbn [nnth] in H; [discriminate|].
+  destruct (i =? 0); [inversion H; now left|right; eauto].
+Qed.
+
+(* the counter lists of the automaton are as long as its status lists *)
+Definition alen (a : astate) : Prop := nlen (a_srun a) = nlen (a_sesss a) /\ nlen (a_cbusy a) = nlen (a_conns a).
+Lemma alen_a0 : alen a0.
+Proof. split; reflexivity. Qed.
+Lemma alen_step a x a' : alen a -> astep a x = Some a' -> alen a'.
+Proof.
+  intros (H1 & H2) H. unfold alen. destruct x; cbn [astep] in H;
+    repeat match type of H with
+    | (match ?e with _ => _ end) = Some _ => destruct e eqn:?; try discriminate
+    | (if ?e then _ else _) = Some _ => destruct e eqn:?; try discriminate
+    end; inversion H; subst; cbn [a_conns a_sesss a_cbusy a_srun]; rewrite ?nlen_nupd, ?nlen_app; cbn; split; lia.
+Qed.
+
+Lemma astep_pend a x a' : alen a -> astep a x = Some a' ->
+  (forall c, busyv a' c = pend_conn c (busyv a c) x) /\ (forall s, srunv a' s = pend_sess s (srunv a s) x).
+Proof.
+  intros (Hl1 & Hl2) H. unfold busyv, srunv. destruct x; cbn [astep pend_conn pend_sess] in *.
+  - destruct (c =? nlen (a_conns a)); inversion H; subst. cbn [a_cbusy a_srun]. split; intros; [apply nnth_snoc_default|reflexivity].
+  - destruct (nnth c (a_conns a)) as [[|[p|p|]]|]; try discriminate. destruct (nnth c (a_cbusy a)) as [[|p]|]; try discriminate. inversion H; subst. auto.
+  - destruct (nnth c (a_conns a)) as [[|[p|p|]]|]; try discriminate.
+    destruct (s =? nlen (a_sesss a)); inversion H; subst. cbn [a_cbusy a_srun]. split; intros; [reflexivity|apply nnth_snoc_default].
+  - destruct (nnth s (a_sesss a)) as [[|[p|p|]]|]; try discriminate. destruct (nnth s (a_srun a)) as [[|p]|]; try discriminate.
+    destruct (forallb _ _); inversion H; subst. auto.
   - destruct (nnth c (a_conns a)) as [[|[p|p|]]|]; try discriminate. inversion H; subst. auto.
   - destruct (nnth c (a_conns a)) as [[|[p|p|]]|]; try discriminate.
-    destruct (N.eqb_spec s0 (nlen (a_sesss a))) as [->|]; [|discriminate]. inversion H; subst. cbn [a_sesss]. split.
-    + now apply nnth_app_l.
+    destruct (nnth s (a_sesss a)) as [[|[p|p|]]|]; try discriminate. inversion H; subst. auto.
+  - destruct (nnth s (a_sesss a)) as [[|[p|p|]]|]; try discriminate. inversion H; subst. auto.
+  - destruct (nnth c (a_conns a)) as [[|[p|p|]]|]; try discriminate.
+    destruct (nnth s (a_sesss a)) as [[|[p|p|]]|]; try discriminate.
+    destruct (nnth c (a_cbusy a)) as [[|p]|] eqn:Eb; try discriminate. inversion H; subst. cbn [a_cbusy a_srun]. split; [|auto].
+    intros c0. rewrite nnth_nupd_default. rewrite (N.eqb_sym c c0). destruct (N.eqb_spec c0 c) as [->|]; [|reflexivity]. now rewrite Eb.
+  - destruct (nnth c (a_cbusy a)) as [[|p]|] eqn:Eb; try discriminate. inversion H; subst. cbn [a_cbusy a_srun]. split; [|auto].
+    intros c0. rewrite nnth_nupd_default. rewrite (N.eqb_sym c c0). destruct (N.eqb_spec c0 c) as [->|]; [|reflexivity]. now rewrite Eb.
+  - destruct (nnth s (a_sesss a)) as [[|[p|p|]]|] eqn:Es; try discriminate. inversion H; subst. cbn [a_cbusy a_srun]. split; [auto|].
+    intros s0. rewrite nnth_nupd_default. rewrite (N.eqb_sym s s0). destruct (N.eqb_spec s0 s) as [->|]; [|reflexivity].
+    apply nnth_lt_Some in Es. destruct (nnth_lt (a_srun a) s) as (v & Ev); [lia|]. now rewrite Ev.
+  - destruct (nnth s (a_srun a)) as [[|p]|] eqn:Eb; try discriminate. inversion H; subst. cbn [a_cbusy a_srun]. split; [auto|].
+    intros s0. rewrite nnth_nupd_default. rewrite (N.eqb_sym s s0). destruct (N.eqb_spec s0 s) as [->|]; [|reflexivity]. now rewrite Eb.
+Qed.
+
+Lemma arun_pend w : forall a a', alen a -> arun a w = Some a' ->
+  alen a' /\ (forall c, busyv a' c = fold_left (pend_conn c) w (busyv a c)) /\ (forall s, srunv a' s = fold_left (pend_sess s) w (srunv a s)).
+Proof.
+  induction w as [|x t IH]; intros a a' Hl H; cbn [arun fold_left] in *; [inversion H; subst; auto|].
+  destruct (astep a x) as [a1|] eqn:E; [|discriminate].
+  destruct (astep_pend _ _ _ Hl E) as (Hb & Hs). destruct (IH _ _ (alen_step _ _ _ Hl E) H) as (Hl' & Hb' & Hs').
+  split; [exact Hl'|]. split; intros; [rewrite Hb', Hb|rewrite Hs', Hs]; reflexivity.
+Qed.
+
+Lemma arun_split w1 : forall a w2 a2, arun a (w1 ++ w2) = Some a2 -> exists a1, arun a w1 = Some a1 /\ arun a1 w2 = Some a2.
+Proof.
+  induction w1 as [|x t IH]; intros a w2 a2 H; cbn [arun app] in *; [eauto|].
+  destruct (astep a x); [eauto|discriminate].
+Qed.
+
+(* THE QUIESCENCE PROPERTY OF LEGAL WORDS: where a legal word has the close notification of session s, every
+   callback of s that began before it has returned before it: no reader is inside a packet callback of s and
+   no other callback of s is in progress *)
+Theorem accept_session_close_quiescent w1 s w2 :
+  accept (w1 ++ CbSessClose s :: w2) = true ->
+  fold_left (pend_sess s) w1 0 = 0 /\ forall c, fold_left (pend_conn c) w1 0 <> s + 1.
+Proof.
+  unfold accept. intros H. destruct (arun a0 (w1 ++ CbSessClose s :: w2)) as [a2|] eqn:E; [|discriminate].
+  apply arun_split in E. destruct E as (a1 & E1 & E2). cbn [arun] in E2.
+  destruct (astep a1 (CbSessClose s)) as [a1'|] eqn:E3; [|discriminate]. clear E2 H.
+  destruct (arun_pend _ _ _ alen_a0 E1) as ((Hl1 & Hl2) & Hb & Hs).
+  cbn [astep] in E3. destruct (nnth s (a_sesss a1)) as [[|[p|p|]]|]; try discriminate.
+  destruct (nnth s (a_srun a1)) as [[|p]|] eqn:Er; try discriminate.
+  destruct (forallb _ (a_cbusy a1)) eqn:Ef; [|discriminate]. split.
+  - change 0 with (srunv a0 s) at 1. rewrite <- (Hs s). unfold srunv. now rewrite Er.
+  - intros c Hc. change 0 with (busyv a0 c) in Hc at 1. rewrite <- (Hb c) in Hc. unfold busyv in Hc. destruct (nnth c (a_cbusy a1)) as [v|] eqn:Ec; [|lia].
+    rewrite forallb_forall in Ef. apply nnth_In in Ec. specialize (Ef _ Ec). subst v. rewrite N.eqb_refl in Ef. discriminate.
+Qed.
+
+Definition sdone (a : astate) (s : N) : Prop := nnth s (a_sesss a) = Some 2 /\ nnth s (a_srun a) = Some 0.
+Definition cdone (a : astate) (c : N) : Prop := nnth c (a_conns a) = Some 2 /\ nnth c (a_cbusy a) = Some 0.
+
+Lemma astep_sess_closed_stays a x a' s :
+  astep a x = Some a' -> sdone a s -> sdone a' s /\ about_sess s x = false.
+Proof.
+  unfold sdone. intros H (Hs & Hr). destruct x; cbn [astep about_sess] in *.
+  - destruct (c =? nlen (a_conns a)); inversion H; subst. auto.
+  - destruct (nnth c (a_conns a)) as [[|[p|p|]]|]; try discriminate. destruct (nnth c (a_cbusy a)) as [[|p]|]; try discriminate. inversion H; subst. auto.
+  - destruct (nnth c (a_conns a)) as [[|[p|p|]]|]; try discriminate.
+    destruct (N.eqb_spec s0 (nlen (a_sesss a))) as [->|]; [|discriminate]. inversion H; subst. cbn [a_sesss a_srun]. split.
+    + split; now apply nnth_app_l.
     + apply nnth_lt_Some in Hs. destruct (N.eqb_spec (nlen (a_sesss a)) s); [lia|reflexivity].
-  - destruct (nnth s0 (a_sesss a)) as [[|[p|p|]]|] eqn:E; try discriminate. inversion H; subst. cbn [a_sesss].
-    destruct (N.eqb_spec s0 s) as [->|Hne]; [congruence|]. split; [now rewrite nnth_nupd_other|reflexivity].
+  - destruct (nnth s0 (a_sesss a)) as [[|[p|p|]]|] eqn:E; try discriminate. destruct (nnth s0 (a_srun a)) as [[|p]|]; try discriminate.
+    destruct (forallb _ _); [|discriminate]. inversion H; subst. cbn [a_sesss a_srun].
+    destruct (N.eqb_spec s0 s) as [->|Hne]; [congruence|]. split; [split; [now rewrite nnth_nupd_other|assumption]|reflexivity].
   - destruct (nnth c (a_conns a)) as [[|[p|p|]]|]; try discriminate. inversion H; subst. auto.
   - destruct (nnth c (a_conns a)) as [[|[p|p|]]|]; try discriminate.
     destruct (nnth s0 (a_sesss a)) as [[|[p|p|]]|] eqn:E; try discriminate. inversion H; subst.
     split; [auto|]. destruct (N.eqb_spec s0 s) as [->|]; [congruence|reflexivity].
   - destruct (nnth s0 (a_sesss a)) as [[|[p|p|]]|] eqn:E; try discriminate. inversion H; subst.
     split; [auto|]. destruct (N.eqb_spec s0 s) as [->|]; [congruence|reflexivity].
+  - destruct (nnth c (a_conns a)) as [[|[p|p|]]|]; try discriminate.
+    destruct (nnth s0 (a_sesss a)) as [[|[p|p|]]|] eqn:E; try discriminate.
+    destruct (nnth c (a_cbusy a)) as [[|p]|]; try discriminate. inversion H; subst. cbn [a_sesss a_srun].
+    split; [auto|]. destruct (N.eqb_spec s0 s) as [->|]; [congruence|reflexivity].
+  - destruct (nnth c (a_cbusy a)) as [[|p]|]; try discriminate. inversion H; subst. auto.
+  - destruct (nnth s0 (a_sesss a)) as [[|[p|p|]]|] eqn:E; try discriminate. inversion H; subst. cbn [a_sesss a_srun].
+    destruct (N.eqb_spec s0 s) as [->|Hne]; [congruence|]. split; [split; [assumption|now rewrite nnth_nupd_other]|reflexivity].
+  - destruct (nnth s0 (a_srun a)) as [[|p]|] eqn:E; try discriminate. inversion H; subst. cbn [a_sesss a_srun].
+    destruct (N.eqb_spec s0 s) as [->|Hne]; [congruence|]. split; [split; [assumption|now rewrite nnth_nupd_other]|reflexivity].
 Qed.
 
 Lemma arun_sess_closed_stays w : forall a a' s,
-  arun a w = Some a' -> nnth s (a_sesss a) = Some 2 -> forallb (fun x => negb (about_sess s x)) w = true.
+  arun a w = Some a' -> sdone a s -> forallb (fun x => negb (about_sess s x)) w = true.
 Proof.
   induction w as [|x t IH]; intros a a' s H Hs; cbn [arun forallb] in *; [reflexivity|].
   destruct (astep a x) as [a1|] eqn:E; [|discriminate].
   destruct (astep_sess_closed_stays _ _ _ _ E Hs) as (Hs1 & Hx). rewrite Hx. cbn. eapply IH; eauto.
 Qed.
 
-(* once a session's close notification has been delivered, no further callback mentions that session *)
+(* once a session's close notification has been delivered, no further callback mentions that session: none
+   begins, none returns (the ones begun earlier have all returned: accept_session_close_quiescent) *)
 Theorem accept_no_callback_after_session_close w1 s w2 :
   accept (w1 ++ CbSessClose s :: w2) = true -> forallb (fun x => negb (about_sess s x)) w2 = true.
 Proof.
-  unfold accept. rewrite arun_app. destruct (arun (mkA [] []) w1) as [a1|] eqn:E1; [|discriminate].
+  unfold accept. rewrite arun_app. destruct (arun a0 w1) as [a1|] eqn:E1; [|discriminate].
   cbn [arun]. destruct (astep a1 (CbSessClose s)) as [a2|] eqn:E2; [|discriminate].
   destruct (arun a2 w2) as [a3|] eqn:E3; [|discriminate]. intros _.
   eapply arun_sess_closed_stays; [exact E3|].
   cbn [astep] in E2. destruct (nnth s (a_sesss a1)) as [[|[p|p|]]|] eqn:E; try discriminate.
-  inversion E2; subst. cbn [a_sesss]. now apply nnth_nupd_same with (f := fun _ => 2) in E.
+  destruct (nnth s (a_srun a1)) as [[|p]|] eqn:Er; try discriminate. destruct (forallb _ _); [|discriminate].
+  inversion E2; subst. split; cbn [a_sesss a_srun]; [|assumption]. now apply nnth_nupd_same with (f := fun _ => 2) in E.
 Qed.
 
 Lemma astep_conn_closed_stays a x a' c :
-  astep a x = Some a' -> nnth c (a_conns a) = Some 2 -> nnth c (a_conns a') = Some 2 /\ about_conn c x = false.
+  astep a x = Some a' -> cdone a c -> cdone a' c /\ about_conn c x = false.
 Proof.
-  intros H Hs. destruct x; cbn [astep about_conn] in *.
-  - destruct (N.eqb_spec c0 (nlen (a_conns a))) as [->|]; [|discriminate]. inversion H; subst. cbn [a_conns]. split.
-    + now apply nnth_app_l.
+  unfold cdone. intros H (Hs & Hr). destruct x; cbn [astep about_conn] in *.
+  - destruct (N.eqb_spec c0 (nlen (a_conns a))) as [->|]; [|discriminate]. inversion H; subst. cbn [a_conns a_cbusy]. split.
+    + split; now apply nnth_app_l.
     + apply nnth_lt_Some in Hs. destruct (N.eqb_spec (nlen (a_conns a)) c); [lia|reflexivity].
-  - destruct (nnth c0 (a_conns a)) as [[|[p|p|]]|] eqn:E; try discriminate. inversion H; subst. cbn [a_conns].
-    destruct (N.eqb_spec c0 c) as [->|Hne]; [congruence|]. split; [now rewrite nnth_nupd_other|reflexivity].
+  - destruct (nnth c0 (a_conns a)) as [[|[p|p|]]|] eqn:E; try discriminate. destruct (nnth c0 (a_cbusy a)) as [[|p]|]; try discriminate.
+    inversion H; subst. cbn [a_conns a_cbusy].
+    destruct (N.eqb_spec c0 c) as [->|Hne]; [congruence|]. split; [split; [now rewrite nnth_nupd_other|assumption]|reflexivity].
   - destruct (nnth c0 (a_conns a)) as [[|[p|p|]]|] eqn:E; try discriminate.
     destruct (s =? nlen (a_sesss a)); [|discriminate]. inversion H; subst. split; [auto|].
     destruct (N.eqb_spec c0 c) as [->|]; [congruence|reflexivity].
-  - destruct (nnth s (a_sesss a)) as [[|[p|p|]]|]; try discriminate. inversion H; subst. auto.
+  - destruct (nnth s (a_sesss a)) as [[|[p|p|]]|]; try discriminate. destruct (nnth s (a_srun a)) as [[|p]|]; try discriminate.
+    destruct (forallb _ _); [|discriminate]. inversion H; subst. auto.
   - destruct (nnth c0 (a_conns a)) as [[|[p|p|]]|] eqn:E; try discriminate. inversion H; subst.
     split; [auto|]. destruct (N.eqb_spec c0 c) as [->|]; [congruence|reflexivity].
   - destruct (nnth c0 (a_conns a)) as [[|[p|p|]]|] eqn:E; try discriminate.
     destruct (nnth s (a_sesss a)) as [[|[p|p|]]|]; try discriminate. inversion H; subst.
     split; [auto|]. destruct (N.eqb_spec c0 c) as [->|]; [congruence|reflexivity].
   - destruct (nnth s (a_sesss a)) as [[|[p|p|]]|]; try discriminate. inversion H; subst. auto.
+  - destruct (nnth c0 (a_conns a)) as [[|[p|p|]]|] eqn:E; try discriminate.
+    destruct (nnth s (a_sesss a)) as [[|[p|p|]]|]; try discriminate.
+    destruct (nnth c0 (a_cbusy a)) as [[|p]|]; try discriminate. inversion H; subst. cbn [a_conns a_cbusy].
+    destruct (N.eqb_spec c0 c) as [->|Hne]; [congruence|]. split; [split; [assumption|now rewrite nnth_nupd_other]|reflexivity].
+  - destruct (nnth c0 (a_cbusy a)) as [[|p]|] eqn:E; try discriminate. inversion H; subst. cbn [a_conns a_cbusy].
+    destruct (N.eqb_spec c0 c) as [->|Hne]; [congruence|]. split; [split; [assumption|now rewrite nnth_nupd_other]|reflexivity].
+  - destruct (nnth s (a_sesss a)) as [[|[p|p|]]|]; try discriminate. inversion H; subst. auto.
+  - destruct (nnth s (a_srun a)) as [[|p]|]; try discriminate. inversion H; subst. auto.
 Qed.
 
 Lemma arun_conn_closed_stays w : forall a a' c,
-  arun a w = Some a' -> nnth c (a_conns a) = Some 2 -> forallb (fun x => negb (about_conn c x)) w = true.
+  arun a w = Some a' -> cdone a c -> forallb (fun x => negb (about_conn c x)) w = true.
 Proof.
   induction w as [|x t IH]; intros a a' c H Hs; cbn [arun forallb] in *; [reflexivity|].
   destruct (astep a x) as [a1|] eqn:E; [|discriminate].
   destruct (astep_conn_closed_stays _ _ _ _ E Hs) as (Hs1 & Hx). rewrite Hx. cbn. eapply IH; eauto.
 Qed.
 
-(* ... and likewise for a connection: nothing after its close, in particular no second close *)
+(* ... and likewise for a connection: nothing after its close, in particular no second close and no packet
+   callback of its reader beginning or returning *)
 Theorem accept_no_callback_after_conn_close w1 c w2 :
   accept (w1 ++ CbConnClose c :: w2) = true -> forallb (fun x => negb (about_conn c x)) w2 = true.
 Proof.
-  unfold accept. rewrite arun_app. destruct (arun (mkA [] []) w1) as [a1|] eqn:E1; [|discriminate].
+  unfold accept. rewrite arun_app. destruct (arun a0 w1) as [a1|] eqn:E1; [|discriminate].
   cbn [arun]. destruct (astep a1 (CbConnClose c)) as [a2|] eqn:E2; [|discriminate].
   destruct (arun a2 w2) as [a3|] eqn:E3; [|discriminate]. intros _.
   eapply arun_conn_closed_stays; [exact E3|].
   cbn [astep] in E2. destruct (nnth c (a_conns a1)) as [[|[p|p|]]|] eqn:E; try discriminate.
-  inversion E2; subst. cbn [a_conns]. now apply nnth_nupd_same with (f := fun _ => 2) in E.
+  destruct (nnth c (a_cbusy a1)) as [[|p]|] eqn:Er; try discriminate.
+  inversion E2; subst. split; cbn [a_conns a_cbusy]; [|assumption]. now apply nnth_nupd_same with (f := fun _ => 2) in E.
 Qed.
 
 (* ---------- the shutdown cascade ---------- *)
@@ -310,6 +816,13 @@ Proof.
   intros H Hf. revert i; induction H as [|x t Hx Ht IH]; intros i; cbn [nupd]; [constructor|].
   destruct (i =? 0); constructor; auto.
 Qed.
+Lemma Forall_nupd_at {A} (P : A -> Prop) i f l : Forall P l -> (forall x, nnth i l = Some x -> P (f x)) -> Forall P (nupd i f l).
+Proof.
+  intros H. revert i; induction H as [|x t Hx Ht IH]; intros i Hf; cbn [nupd]; [constructor|].
+  destruct (N.eqb_spec i 0) as [Hi|Hi].
+  - constructor; [|exact Ht]. apply Hf. subst i. reflexivity.
+  - constructor; [exact Hx|]. apply IH. intros y Hy. apply Hf. cbn [nnth]. destruct (N.eqb_spec i 0); [lia|exact Hy].
+Qed.
 Lemma Forall_nnth {A} (P : A -> Prop) l i x : Forall P l -> nnth i l = Some x -> P x.
 Proof.
   revert i; induction l as [|y t IH]; intros i HF H; cbn [nnth] in H; [discriminate|].
@@ -319,52 +832,65 @@ Lemma cancel_conns_nonopen ids cs :
   Forall (fun c => c_st c <> Open) cs -> Forall (fun c => c_st c <> Open) (cancel_conns ids cs).
 Proof.
   revert cs; induction ids as [|i t IH]; intros cs H; cbn [cancel_conns]; [exact H|].
-  apply IH. apply Forall_nupd; [exact H|]. intros x Hx. unfold cancel_conn. destruct (c_st x) eqn:E; cbn; congruence.
+  apply IH. apply Forall_nupd; [exact H|]. intros x Hx. unfold cancel_conn, set_cst. destruct (c_st x) eqn:E; cbn; congruence.
 Qed.
 
 Lemma quiesced_step st s st' : quiesced st -> step st s = Some st' -> quiesced st'.
 Proof.
   unfold quiesced. intros Hq H.
   destruct s; cbn [step] in H.
-  - destruct (sv st) eqn:Es; try discriminate. inversion H; subst. cbn [sv]. congruence.
-  - destruct (sv st) eqn:Es; try discriminate.
-    destruct (nnth c (conns st)) as [[[| |] r [s0|]]|]; try discriminate. inversion H; subst. cbn [sv]. congruence.
-  - destruct (nnth c (conns st)) as [[[| |] r [s0|]]|] eqn:Ec; try discriminate.
-    destruct (nnth s (sesss st)) as [[[| |] cs w m]|]; try discriminate. inversion H; subst. cbn [sv conns sesss].
+  - (* Accept *) destruct (sv st) eqn:Es; try discriminate. inversion H; subst. cbn [sv]. congruence.
+  - (* NewSession *) destruct (sv st) eqn:Es; try discriminate.
+    destruct (nnth c (conns st)) as [[[| |] r [s0|] [b|]]|]; try discriminate. inversion H; subst. cbn [sv]. congruence.
+  - (* Attach *) destruct (nnth c (conns st)) as [[[| |] r [s0|] [b|]]|] eqn:Ec; try discriminate.
+    destruct (nnth s (sesss st)) as [[[| |] cs w m n]|]; try discriminate. inversion H; subst. cbn [sv conns sesss].
     intros Hs. destruct (Hq Hs) as (Hc & _). exfalso. apply (Forall_nnth _ _ _ _ Hc Ec). reflexivity.
-  - destruct (nnth c (conns st)) as [[[| |] r ss]|]; try discriminate. inversion H; subst. exact Hq.
-  - destruct (nnth c (conns st)) as [[[| |] r [s0|]]|]; try discriminate.
-    destruct (nnth s (sesss st)) as [[[| |] cs w m]|]; try discriminate.
+  - (* Request *) destruct (nnth c (conns st)) as [[[| |] r ss [b|]]|]; try discriminate. inversion H; subst. exact Hq.
+  - (* RequestS *) destruct (nnth c (conns st)) as [[[| |] r [s0|] [b|]]|]; try discriminate.
+    destruct (nnth s (sesss st)) as [[[| |] cs w m n]|]; try discriminate.
     destruct (s0 =? s); [|discriminate]. inversion H; subst. exact Hq.
-  - destruct (nnth s (sesss st)) as [[[| |] cs w m]|] eqn:Ess; try discriminate. inversion H; subst. cbn [sv conns sesss].
+  - (* Play *) destruct (nnth s (sesss st)) as [[[| |] cs w m n]|] eqn:Ess; try discriminate. inversion H; subst. cbn [sv conns sesss].
     intros Hs. destruct (Hq Hs) as (_ & Hss). exfalso. apply (Forall_nnth _ _ _ _ Hss Ess). reflexivity.
-  - destruct (nnth s (sesss st)) as [[[| |] cs w m]|] eqn:Ess; try discriminate. inversion H; subst. cbn [sv conns sesss].
+  - (* Pause *) destruct (nnth s (sesss st)) as [[[| |] cs w m [|n]]|] eqn:Ess; try discriminate. inversion H; subst. cbn [sv conns sesss].
     intros Hs. destruct (Hq Hs) as (_ & Hss). exfalso. apply (Forall_nnth _ _ _ _ Hss Ess). reflexivity.
-  - destruct (nnth s (sesss st)) as [[[| |] cs w [|]]|]; try discriminate; inversion H; subst; exact Hq.
-  - destruct (nnth c (conns st)) as [[[| |] r [s0|]]|] eqn:Ec; try discriminate.
-    destruct (nnth s (sesss st)) as [[[| |] cs w m]|]; try discriminate.
+  - (* Packet *) destruct (nnth s (sesss st)) as [[[| |] cs w [|] n]|]; try discriminate; inversion H; subst; exact Hq.
+  - (* PacketBegin *) destruct (nnth c (conns st)) as [[o [|] [s|] [b|]]|] eqn:Ec; try discriminate. inversion H; subst. cbn [sv conns sesss].
+    intros Hs. destruct (Hq Hs) as (Hc & Hss). split; [|exact Hss]. apply Forall_nupd_at; [exact Hc|].
+    intros x _. exact (Forall_nnth _ _ _ _ Hc Ec).
+  - (* PacketEnd *) destruct (nnth c (conns st)) as [[o r ss [s|]]|] eqn:Ec; try discriminate. inversion H; subst. cbn [sv conns sesss].
+    intros Hs. destruct (Hq Hs) as (Hc & Hss). split; [|exact Hss]. apply Forall_nupd_at; [exact Hc|].
+    intros x _. exact (Forall_nnth _ _ _ _ Hc Ec).
+  - (* SBegin *) destruct (nnth s (sesss st)) as [[[| |] cs w [|] n]|] eqn:Ess; try discriminate; inversion H; subst; cbn [sv conns sesss];
+      intros Hs; destruct (Hq Hs) as (Hc & Hss); (split; [exact Hc|]); apply Forall_nupd_at; try exact Hss;
+      intros x _; exact (Forall_nnth _ _ _ _ Hss Ess).
+  - (* SEnd *) destruct (nnth s (sesss st)) as [[o cs w m n]|] eqn:Ess; try discriminate. destruct (0 <? n); [|discriminate].
+    inversion H; subst; cbn [sv conns sesss].
+    intros Hs; destruct (Hq Hs) as (Hc & Hss). split; [exact Hc|]. apply Forall_nupd_at; [exact Hss|].
+    intros x _; exact (Forall_nnth _ _ _ _ Hss Ess).
+  - (* Teardown *) destruct (nnth c (conns st)) as [[[| |] r [s0|] [b|]]|] eqn:Ec; try discriminate.
+    destruct (nnth s (sesss st)) as [[[| |] cs w m n]|]; try discriminate.
     destruct (s0 =? s); [|discriminate]. inversion H; subst. cbn [sv conns sesss].
     intros Hs. destruct (Hq Hs) as (Hc & _). exfalso. apply (Forall_nnth _ _ _ _ Hc Ec). reflexivity.
-  - destruct (nnth c (conns st)) as [[[| |] r ss]|] eqn:Ec; try discriminate. inversion H; subst. cbn [sv conns sesss].
+  - (* ConnFail *) destruct (nnth c (conns st)) as [[[| |] r ss b]|] eqn:Ec; try discriminate. inversion H; subst. cbn [sv conns sesss].
     intros Hs. destruct (Hq Hs) as (Hc & _). exfalso. apply (Forall_nnth _ _ _ _ Hc Ec). reflexivity.
-  - destruct (nnth c (conns st)) as [[[| |] [|] ss]|]; try discriminate. inversion H; subst. cbn [sv conns sesss].
+  - (* ReaderExit *) destruct (nnth c (conns st)) as [[[| |] [|] ss [b|]]|]; try discriminate. inversion H; subst. cbn [sv conns sesss].
     intros Hs. destruct (Hq Hs) as (Hc & Hss). split; [|exact Hss]. apply Forall_nupd; [exact Hc|]. cbn. discriminate.
-  - destruct (nnth c (conns st)) as [[[| |] [|] ss]|]; try discriminate. inversion H; subst. cbn [sv conns sesss].
+  - (* ConnFinish *) destruct (nnth c (conns st)) as [[[| |] [|] ss b]|]; try discriminate. inversion H; subst. cbn [sv conns sesss].
     intros Hs. destruct (Hq Hs) as (Hc & Hss). split; [|exact Hss]. apply Forall_nupd; [exact Hc|]. cbn. discriminate.
-  - destruct (nnth s (sesss st)) as [[[| |] cs w m]|] eqn:Ess; try discriminate. inversion H; subst. cbn [sv conns sesss].
+  - (* SessFail *) destruct (nnth s (sesss st)) as [[[| |] cs w m n]|] eqn:Ess; try discriminate. inversion H; subst. cbn [sv conns sesss].
     intros Hs. destruct (Hq Hs) as (_ & Hss). exfalso. apply (Forall_nnth _ _ _ _ Hss Ess). reflexivity.
-  - destruct (nnth s (sesss st)) as [[[| |] cs w [|]]|]; try discriminate.
+  - (* MediaStop *) destruct (nnth s (sesss st)) as [[[| |] cs w [|] [|n]]|]; try discriminate.
     destruct (forallb (conn_closed (conns st)) cs); [|discriminate]. inversion H; subst. cbn [sv conns sesss].
     intros Hs. destruct (Hq Hs) as (Hc & Hss). split; [exact Hc|]. apply Forall_nupd; [exact Hss|]. cbn. discriminate.
-  - destruct (nnth s (sesss st)) as [[[| |] cs w [|]]|]; try discriminate.
+  - (* WorkerExit *) destruct (nnth s (sesss st)) as [[[| |] cs w [|] n]|]; try discriminate.
     destruct ((0 <? w) && forallb (conn_closed (conns st)) cs); [|discriminate]. inversion H; subst. cbn [sv conns sesss].
     intros Hs. destruct (Hq Hs) as (Hc & Hss). split; [exact Hc|]. apply Forall_nupd; [exact Hss|]. cbn. discriminate.
-  - destruct (nnth s (sesss st)) as [[[| |] cs [|w] [|]]|]; try discriminate.
+  - (* SessFinish *) destruct (nnth s (sesss st)) as [[[| |] cs [|w] [|] [|n]]|]; try discriminate.
     destruct (forallb (conn_closed (conns st)) cs); [|discriminate]. inversion H; subst. cbn [sv conns sesss].
     intros Hs. destruct (Hq Hs) as (Hc & Hss). split; [exact Hc|]. apply Forall_nupd; [exact Hss|]. cbn. discriminate.
-  - destruct (sv st); try discriminate. inversion H; subst. cbn [sv conns sesss]. intros _. split.
+  - (* ServerClose *) destruct (sv st); try discriminate. inversion H; subst. cbn [sv conns sesss]. intros _. split.
     + apply Forall_forall. intros x Hx. apply in_map_iff in Hx. destruct Hx as (y & <- & _).
-      unfold cancel_conn. destruct (c_st y) eqn:E; cbn; congruence.
+      unfold cancel_conn, set_cst. destruct (c_st y) eqn:E; cbn; congruence.
     + apply Forall_forall. intros x Hx. apply in_map_iff in Hx. destruct Hx as (y & <- & _).
       unfold cancel_sess. destruct (s_st y) eqn:E; cbn; congruence.
   - destruct (sv st) eqn:Es; try discriminate. destruct (0 <? listeners st); [|discriminate].
@@ -387,12 +913,15 @@ Fixpoint find_conn (p : conn -> bool) (l : list conn) (i : N) : option (N * conn
 Fixpoint find_sess (p : sess -> bool) (l : list sess) (i : N) : option (N * sess) :=
   match l with [] => None | x :: t => if p x then Some (i, x) else find_sess p t (i + 1) end.
 
+(* a callback in progress returns first (the library never interrupts the application's code), then the
+   goroutine that ran it leaves *)
 Definition next_fin (st : state) : option stepT :=
   match find_conn (fun c => ost_eqb (c_st c) Closing) (conns st) 0 with
-  | Some (c, x) => Some (if c_reader x then ReaderExit c else ConnFinish c)
+  | Some (c, x) => Some (match c_busy x with Some _ => PacketEnd c | None => if c_reader x then ReaderExit c else ConnFinish c end)
   | None =>
       match find_sess (fun s => ost_eqb (s_st s) Closing) (sesss st) 0 with
-      | Some (s, x) => Some (if s_media x then MediaStop s else if 0 <? s_workers x then WorkerExit s else SessFinish s)
+      | Some (s, x) => Some (if 0 <? s_srun x then SEnd s else if s_media x then MediaStop s
+                             else if 0 <? s_workers x then WorkerExit s else SessFinish s)
       | None =>
           match sv st with
           | Closing => Some (if 0 <? listeners st then ListenerExit else ServerFinish)
@@ -403,7 +932,7 @@ Definition next_fin (st : state) : option stepT :=
 
 Definition is_fin (s : stepT) : Prop :=
   match s with
-  | ReaderExit _ | ConnFinish _ | MediaStop _ | WorkerExit _ | SessFinish _ | ListenerExit | ServerFinish => True
+  | PacketEnd _ | SEnd _ | ReaderExit _ | ConnFinish _ | MediaStop _ | WorkerExit _ | SessFinish _ | ListenerExit | ServerFinish => True
   | _ => False
   end.
 
@@ -452,42 +981,55 @@ Proof.
   intros Hq Hs Hnc. destruct (Hq Hs) as (Hco & Hso). unfold next_fin.
   destruct (find_conn (fun c => ost_eqb (c_st c) Closing) (conns st) 0) as [[c x]|] eqn:Ec.
   - destruct (find_conn_spec _ _ _ _ _ Ec) as (_ & Hn & Hp). rewrite N.sub_0_r in Hn.
-    destruct x as [o r ss]. cbn [c_st c_reader] in *. destruct o; try discriminate. destruct r.
+    destruct x as [o r ss b]. cbn [c_st c_reader c_busy] in *. destruct o; try discriminate. destruct b as [b|]; [|destruct r].
     + eexists; eexists. split; [reflexivity|]. split; [exact I|]. cbn [step]. rewrite Hn. split; [reflexivity|].
       unfold measure. cbn [sv listeners conns sesss].
-      pose proof (sumN_nupd_lt conn_w c (fun _ => mkConn Closing false ss) _ _ Hn) as Hm.
-      assert (Hd : conn_w ((fun _ => mkConn Closing false ss) (mkConn Closing true ss)) < conn_w (mkConn Closing true ss)) by (unfold conn_w, ost_w; cbn [c_st c_reader]; lia).
+      pose proof (sumN_nupd_lt conn_w c (fun _ => mkConn Closing r ss None) _ _ Hn) as Hm.
+      assert (Hd : conn_w ((fun _ => mkConn Closing r ss None) (mkConn Closing r ss (Some b))) < conn_w (mkConn Closing r ss (Some b))) by (unfold conn_w, ost_w; cbn [c_st c_reader c_busy]; lia).
       specialize (Hm Hd). lia.
     + eexists; eexists. split; [reflexivity|]. split; [exact I|]. cbn [step]. rewrite Hn. split; [reflexivity|].
       unfold measure. cbn [sv listeners conns sesss].
-      pose proof (sumN_nupd_lt conn_w c (fun _ => mkConn Closed false ss) _ _ Hn) as Hm.
-      assert (Hd : conn_w ((fun _ => mkConn Closed false ss) (mkConn Closing false ss)) < conn_w (mkConn Closing false ss)) by (unfold conn_w, ost_w; cbn [c_st c_reader]; lia).
+      pose proof (sumN_nupd_lt conn_w c (fun _ => mkConn Closing false ss None) _ _ Hn) as Hm.
+      assert (Hd : conn_w ((fun _ => mkConn Closing false ss None) (mkConn Closing true ss None)) < conn_w (mkConn Closing true ss None)) by (unfold conn_w, ost_w; cbn [c_st c_reader c_busy]; lia).
+      specialize (Hm Hd). lia.
+    + eexists; eexists. split; [reflexivity|]. split; [exact I|]. cbn [step]. rewrite Hn. split; [reflexivity|].
+      unfold measure. cbn [sv listeners conns sesss].
+      pose proof (sumN_nupd_lt conn_w c (fun _ => mkConn Closed false ss None) _ _ Hn) as Hm.
+      assert (Hd : conn_w ((fun _ => mkConn Closed false ss None) (mkConn Closing false ss None)) < conn_w (mkConn Closing false ss None)) by (unfold conn_w, ost_w; cbn [c_st c_reader c_busy]; lia).
       specialize (Hm Hd). lia.
   - assert (Hcc : Forall (fun c => c_st c = Closed) (conns st)).
     { apply find_conn_none in Ec. rewrite Forall_forall in *. intros x Hx. specialize (Ec x Hx). specialize (Hco x Hx).
       cbv beta in *. destruct (c_st x); cbn in *; congruence. }
     destruct (find_sess (fun s => ost_eqb (s_st s) Closing) (sesss st) 0) as [[s x]|] eqn:Ess.
     + destruct (find_sess_spec _ _ _ _ _ Ess) as (_ & Hn & Hp). rewrite N.sub_0_r in Hn.
-      destruct x as [o cs w m]. cbn [s_st s_media s_workers] in *. destruct o; try discriminate.
+      destruct x as [o cs w m n]. cbn [s_st s_media s_workers s_srun] in *. destruct o; try discriminate.
       pose proof (all_conns_closed_forallb _ cs Hcc) as Hf.
+      destruct (N.ltb_spec 0 n) as [Hn0|Hn0].
+      { eexists; eexists. split; [reflexivity|]. split; [exact I|]. cbn [step]. rewrite Hn.
+        destruct (N.ltb_spec 0 n); [|lia]. split; [reflexivity|].
+        unfold measure. cbn [sv listeners conns sesss].
+        pose proof (sumN_nupd_lt sess_w s (fun _ => mkSess Closing cs w m (N.pred n)) _ _ Hn) as Hm.
+        assert (Hd : sess_w ((fun _ => mkSess Closing cs w m (N.pred n)) (mkSess Closing cs w m n)) < sess_w (mkSess Closing cs w m n)) by (unfold sess_w, ost_w; cbn [s_st s_workers s_media s_srun]; lia).
+        specialize (Hm Hd). lia. }
+      assert (n = 0) by lia. subst n.
       destruct m.
       * eexists; eexists. split; [reflexivity|]. split; [exact I|]. cbn [step]. rewrite Hn, Hf. split; [reflexivity|].
         unfold measure. cbn [sv listeners conns sesss].
-        pose proof (sumN_nupd_lt sess_w s (fun _ => mkSess Closing cs w false) _ _ Hn) as Hm.
-        assert (Hd : sess_w ((fun _ => mkSess Closing cs w false) (mkSess Closing cs w true)) < sess_w (mkSess Closing cs w true)) by (unfold sess_w, ost_w; cbn [s_st s_workers s_media]; lia).
+        pose proof (sumN_nupd_lt sess_w s (fun _ => mkSess Closing cs w false 0) _ _ Hn) as Hm.
+        assert (Hd : sess_w ((fun _ => mkSess Closing cs w false 0) (mkSess Closing cs w true 0)) < sess_w (mkSess Closing cs w true 0)) by (unfold sess_w, ost_w; cbn [s_st s_workers s_media s_srun]; lia).
         specialize (Hm Hd). lia.
       * destruct (N.ltb_spec 0 w).
         -- eexists; eexists. split; [reflexivity|]. split; [exact I|]. cbn [step]. rewrite Hn, Hf.
            destruct (N.ltb_spec 0 w); [|lia]. cbn [andb]. split; [reflexivity|].
            unfold measure. cbn [sv listeners conns sesss].
-           pose proof (sumN_nupd_lt sess_w s (fun _ => mkSess Closing cs (N.pred w) false) _ _ Hn) as Hm.
-           assert (Hd : sess_w ((fun _ => mkSess Closing cs (N.pred w) false) (mkSess Closing cs w false)) < sess_w (mkSess Closing cs w false)) by (unfold sess_w, ost_w; cbn [s_st s_workers s_media]; lia).
+           pose proof (sumN_nupd_lt sess_w s (fun _ => mkSess Closing cs (N.pred w) false 0) _ _ Hn) as Hm.
+           assert (Hd : sess_w ((fun _ => mkSess Closing cs (N.pred w) false 0) (mkSess Closing cs w false 0)) < sess_w (mkSess Closing cs w false 0)) by (unfold sess_w, ost_w; cbn [s_st s_workers s_media s_srun]; lia).
            specialize (Hm Hd). lia.
         -- assert (w = 0) by lia. subst w.
            eexists; eexists. split; [reflexivity|]. split; [exact I|]. cbn [step]. rewrite Hn, Hf. split; [reflexivity|].
            unfold measure. cbn [sv listeners conns sesss].
-           pose proof (sumN_nupd_lt sess_w s (fun _ => mkSess Closed cs 0 false) _ _ Hn) as Hm.
-           assert (Hd : sess_w ((fun _ => mkSess Closed cs 0 false) (mkSess Closing cs 0 false)) < sess_w (mkSess Closing cs 0 false)) by (unfold sess_w, ost_w; cbn [s_st s_workers s_media]; lia).
+           pose proof (sumN_nupd_lt sess_w s (fun _ => mkSess Closed cs 0 false 0) _ _ Hn) as Hm.
+           assert (Hd : sess_w ((fun _ => mkSess Closed cs 0 false 0) (mkSess Closing cs 0 false 0)) < sess_w (mkSess Closing cs 0 false 0)) by (unfold sess_w, ost_w; cbn [s_st s_workers s_media s_srun]; lia).
            specialize (Hm Hd). lia.
     + assert (Hsc : Forall (fun s => s_st s = Closed) (sesss st)).
       { apply find_sess_none in Ess. rewrite Forall_forall in *. intros x Hx. specialize (Ess x Hx). specialize (Hso x Hx).
@@ -508,8 +1050,26 @@ Proof.
         rewrite H, H0 in Hnc. discriminate.
 Qed.
 
+Lemma fin_keeps_cancelled st s st' : is_fin s -> step st s = Some st' -> sv st <> Open -> sv st' <> Open.
+Proof.
+  intros Hf Hst Hs. destruct s; try contradiction; cbn [step] in Hst.
+  - destruct (nnth c (conns st)) as [[o r ss [b|]]|]; try discriminate. inversion Hst; subst. exact Hs.
+  - destruct (nnth s (sesss st)) as [[o cs w m n]|]; try discriminate. destruct (0 <? n); [|discriminate]. inversion Hst; subst. exact Hs.
+  - destruct (nnth c (conns st)) as [[[| |] [|] ss [b|]]|]; try discriminate. inversion Hst; subst. exact Hs.
+  - destruct (nnth c (conns st)) as [[[| |] [|] ss b]|]; try discriminate. inversion Hst; subst. exact Hs.
+  - destruct (nnth s (sesss st)) as [[[| |] cs w [|] [|n]]|]; try discriminate.
+    destruct (forallb (conn_closed (conns st)) cs); [|discriminate]. inversion Hst; subst. exact Hs.
+  - destruct (nnth s (sesss st)) as [[[| |] cs w [|] n]|]; try discriminate.
+    destruct ((0 <? w) && forallb (conn_closed (conns st)) cs); [|discriminate]. inversion Hst; subst. exact Hs.
+  - destruct (nnth s (sesss st)) as [[[| |] cs [|w] [|] [|n]]|]; try discriminate.
+    destruct (forallb (conn_closed (conns st)) cs); [|discriminate]. inversion Hst; subst. exact Hs.
+  - destruct (sv st); try discriminate. destruct (0 <? listeners st); [|discriminate]. inversion Hst; subst. cbn. discriminate.
+  - destruct (sv st); try discriminate. destruct (listeners st =? 0); [|discriminate]. inversion Hst; subst. cbn. discriminate.
+Qed.
+
 (* from every state in which the root context has been cancelled the cascade reaches "Server.Close has
-   returned" in at most [measure] finishing steps *)
+   returned" in at most [measure] finishing steps - provided every callback in progress returns, which is
+   what the finishing steps PacketEnd / SEnd stand for *)
 Theorem close_terminates_from : forall n st,
   quiesced st -> sv st <> Open -> measure st <= n ->
   exists steps st', exec st steps = Some st' /\ all_closed st' = true /\ nlen steps <= n /\ Forall is_fin steps.
@@ -521,18 +1081,7 @@ Proof.
   - destruct (all_closed st) eqn:E.
     + exists [], st. repeat split; auto. cbn. lia.
     + destruct (close_progress st Hq Hs E) as (s & st1 & _ & Hf & Hst & Hlt).
-      assert (Hs1 : sv st1 <> Open).
-      { destruct s; try contradiction; cbn [step] in Hst.
-        - destruct (nnth c (conns st)) as [[[| |] [|] ss]|]; try discriminate. inversion Hst; subst. exact Hs.
-        - destruct (nnth c (conns st)) as [[[| |] [|] ss]|]; try discriminate. inversion Hst; subst. exact Hs.
-        - destruct (nnth s (sesss st)) as [[[| |] cs w [|]]|]; try discriminate.
-          destruct (forallb (conn_closed (conns st)) cs); [|discriminate]. inversion Hst; subst. exact Hs.
-        - destruct (nnth s (sesss st)) as [[[| |] cs w [|]]|]; try discriminate.
-          destruct ((0 <? w) && forallb (conn_closed (conns st)) cs); [|discriminate]. inversion Hst; subst. exact Hs.
-        - destruct (nnth s (sesss st)) as [[[| |] cs [|w] [|]]|]; try discriminate.
-          destruct (forallb (conn_closed (conns st)) cs); [|discriminate]. inversion Hst; subst. exact Hs.
-        - destruct (sv st); try discriminate. destruct (0 <? listeners st); [|discriminate]. inversion Hst; subst. cbn. discriminate.
-        - destruct (sv st); try discriminate. destruct (listeners st =? 0); [|discriminate]. inversion Hst; subst. cbn. discriminate. }
+      pose proof (fin_keeps_cancelled _ _ _ Hf Hst Hs) as Hs1.
       destruct (IH st1 (quiesced_step _ _ _ Hq Hst) Hs1 ltac:(lia)) as (steps & st' & He & Hc & Hl & Hfs).
       exists (s :: steps), st'. repeat split; auto.
       * cbn [exec]. now rewrite Hst.
@@ -586,4 +1135,24 @@ Proof.
            ++ unfold cl_measure. cbn [ost_w cl_st cl_reader cl_workers cl_listeners]. lia.
         -- assert (l = 0) by lia. subst l.
            exists [ClFinish], (mkCl Closed false 0 0). split; [reflexivity|]. split; [reflexivity|]. cbn [nlen]. lia.
+Qed.
+
+(* ---------- the waits-for edges, stated on the model ---------- *)
+(* session -> conn.done (ServerSession.run: sc.Close(); <-sc.done, or the connection reporting itself gone with
+   removeConn), conn -> its reader BEFORE it reports to the session (ServerConn.run: nconn.Close(); reader.wait();
+   session.removeConn): in every reachable state, no reader goroutine of a connection attached to a closed session
+   is running, hence none is inside a packet callback of that session. *)
+Theorem closed_session_has_no_reader n steps st s y :
+  exec (init n) steps = Some st -> nnth s (sesss st) = Some y -> s_st y = Closed ->
+  forall c x, nnth c (conns st) = Some x -> c_busy x <> Some s /\ (c_sess x = Some s -> c_reader x = false).
+Proof.
+  intros H Hy Hc. destruct (traced_exec _ _ _ (linv_init n) (traced_init n) H) as ((HC & HS) & _).
+  destruct (HS _ _ Hy) as (S1 & S2 & S3).
+  assert (Hatt : forall c x, nnth c (conns st) = Some x -> c_sess x = Some s -> c_reader x = false).
+  { intros c x Hx Hs. destruct (HC _ _ Hx) as (_ & C2 & _ & C4). destruct (C4 _ Hs) as (y' & Hy' & Hin).
+    rewrite Hy in Hy'. inversion Hy'; subst y'. specialize (S1 Hc). rewrite forallb_forall in S1. specialize (S1 _ Hin).
+    unfold conn_closed in S1. rewrite Hx in S1. apply C2. destruct (c_st x); try discriminate. reflexivity. }
+  intros c x Hx. split; [|exact (Hatt c x Hx)].
+  intros Hb. destruct (HC _ _ Hx) as (C1 & _ & C3 & _). specialize (Hatt c x Hx (C3 _ Hb)).
+  rewrite C1 in Hatt; [discriminate|]. rewrite Hb. discriminate.
 Qed.
